@@ -117,6 +117,10 @@ struct Outcome {
     after_error: Option<&'static str>,
     /// Gtrig only: a raw IRI of a yielded statement that is not a valid IRI reference (recorded before any accessor runs)
     raw_invalid_iri: Option<String>,
+    /// round 6: the panic message / the complaint behind after_error = "panicked" / "invalid-term"
+    after_error_detail: Option<String>,
+    /// round 6: for every entry of `stmts` delivered through HItem::rec, the same statement without its graph name
+    spo_only: Vec<String>,
 }
 
 fn term_text<T: Term>(t: T) -> String { let st: SimpleTerm = t.into_term(); format!("{st:?}") }
@@ -370,6 +374,7 @@ where S: TripleSource, for<'x> <S as Source>::Item<'x>: Clone + Extra {
             if out.err.is_some() {
                 let mut post = Outcome::default();
                 let res = catch_unwind(AssertUnwindSafe(|| { let mut verdict = "ended"; for _ in 0..3 { match src.for_some_triple(|x| on_triple(x, false, g, &mut post)) { Ok(true) => { verdict = "more-statements"; } Ok(false) => break, Err(_) => { if verdict == "ended" { verdict = "error-again"; } } } } verdict }));
+                out.after_error_detail = match &res { Err(_) => Some(LAST_PANIC.with(|l| l.borrow().clone()).chars().take(200).collect()), Ok(_) => post.bad.first().cloned() };
                 out.after_error = Some(match res { Err(_) => "panicked", Ok(_) if !post.bad.is_empty() => "invalid-term", Ok(v) => v });
             }
         }
@@ -401,6 +406,7 @@ where S: QuadSource, for<'x> <S as Source>::Item<'x>: Clone + Extra {
             if out.err.is_some() {
                 let mut post = Outcome::default();
                 let res = catch_unwind(AssertUnwindSafe(|| { let mut verdict = "ended"; for _ in 0..3 { match src.for_some_quad(|x| on_quad(x, false, g, &mut post)) { Ok(true) => { verdict = "more-statements"; } Ok(false) => break, Err(_) => { if verdict == "ended" { verdict = "error-again"; } } } } verdict }));
+                out.after_error_detail = match &res { Err(_) => Some(LAST_PANIC.with(|l| l.borrow().clone()).chars().take(200).collect()), Ok(_) => post.bad.first().cloned() };
                 out.after_error = Some(match res { Err(_) => "panicked", Ok(_) if !post.bad.is_empty() => "invalid-term", Ok(v) => v });
             }
         }
@@ -1026,6 +1032,13 @@ fn run_recipe(id: usize, rc: &Recipe, cx: &mut RunCtx) {
                 cx.sum.bump(&format!("consume:{}", format!("{c:?}").split('(').next().unwrap_or("")));
                 if a.io_failed { cx.sum.bump("entry:reader-failure-reached"); } if a.sink { cx.sum.bump("consume:sink-error-returned"); }
                 if let Some(v) = a.after_error { cx.sum.bump(&format!("after-error:{f:?}:{v}")); }
+                // round 6 (revised decision): a panic or an invalid term when the source is pulled again after it reported an error is a failure
+                // (the Turtle-family parsers of third-party rio_turtle: the known finding after-error-rio-turtle)
+                if let (Some(v), Some(d)) = (a.after_error, &a.after_error_detail) { if v == "panicked" || v == "invalid-term" {
+                    let tg = if rio_turtle_after_error(f) { "[after-error-rio-turtle] " } else { "" };
+                    fails.push(if v == "panicked" { format!("{tg}parser {f:?} PANICKED ({profile} build): {d}; when for_some_* was called again after the source had reported an error; entry point {e:?}/{c:?}; {what}; input {shown:?}") }
+                        else { format!("{tg}parser {f:?} ({profile} build) yielded an invalid term: {d}; when for_some_* was called again after the source had reported an error; entry point {e:?}/{c:?}; {what}; input {shown:?}") });
+                } }
                 if !a.bad.is_empty() { fails.push(invalid(*e, format!("{e:?}/{c:?}"), &a)); }
                 if let Ok(rf) = &reference { if rf.bad.is_empty() && a.bad.is_empty() { match agreement(rf, &a, *e, *c) {
                     Agreement::Same => {}
@@ -1038,6 +1051,777 @@ fn run_recipe(id: usize, rc: &Recipe, cx: &mut RunCtx) {
     }
     if cx.verbose { println!("CASE {id}: parser {f:?} on {what}; alternatives {:?}; input {shown:?}", rc.alts); match &reference { Ok(o) => println!("  parse(&[u8]): {} statements, error {:?}, complaints {:?}", o.n, o.err, o.bad), Err(m) => println!("  parse(&[u8]) PANICKED: {m}") } for x in &fails { println!("  FAIL {x}"); } }
     if cx.sum.samples.len() < 8 && id % 1000 == 7 { if let Ok(o) = &reference { cx.sum.samples.push(format!("case {id}: {f:?} on {what}: {} statements, error {:?}", o.n, o.err)); } }
+    for x in fails { cx.sum.oracle_failures.push((id.to_string(), x)); }
+}
+
+// ======================================================================================================
+// Round 6 (a): HISTORIES.  One source, driven by a SEQUENCE of calls: every overridable provided method of the Source
+// trait (try_for_each_item, for_some_item, for_each_item, size_hint_items, filter_items, filter_map_items, map_items) and
+// every method of TripleSource / QuadSource (try_for_some_*, try_for_each_*, for_some_*, for_each_*, size_hint_*,
+// filter_*, filter_map_*, map_*, to_quads / to_triples, collect_*, add_to_*), the adapters' into_iter, each of them called
+// again after the previous call returned Err (source or sink error), after Ok, and after the source was exhausted.
+// The property oracle runs on every call (no panic, every delivered term valid, termination); what every call delivers
+// is compared with what the REQUIRED method try_for_some_item delivers on a fresh source built from the same parser,
+// entry point and bytes (in Rust: `Sim`; inside Coq: coq/C08/Source.v).
+// ======================================================================================================
+use sophia_api::source::StreamError::{SinkError, SourceError};
+use std::collections::VecDeque;
+
+#[derive(Clone, Copy, Debug, PartialEq, Eq)]
+enum Lv { Item, Stmt }
+/// a call on `&mut source`
+#[derive(Clone, Copy, Debug, PartialEq, Eq)]
+enum MOp {
+    /// one try_for_some_item / try_for_some_triple / try_for_some_quad; the sink fails on its first call if the flag is set
+    TrySome(Lv, bool),
+    ForSome(Lv),
+    /// try_for_each_*; the sink fails on its (k+1)-th call
+    TryEach(Lv, Option<usize>),
+    ForEach(Lv),
+    /// size_hint_items / size_hint_triples / size_hint_quads
+    Hint(Lv),
+}
+/// a call that consumes the source; the calls that follow it are made on what it returned.
+/// (Every distinct closure handed to a rio source compiles a copy of the whole parser, so the adapters are driven through one
+/// method each: try_for_each_* with a sink failing at the k-th statement or never, and size_hint_*; the iterators through next and size_hint.
+/// filter_* / map_* / filter_map_* of TripleSource / QuadSource call filter_items / map_items / filter_map_items of Source; both levels are called.)
+#[derive(Clone, Copy, Debug, PartialEq, Eq)]
+enum Fin { Collect, AddTo, /** filter_triples / filter_quads */ FilterStmt(u8), /** Source::filter_items */ FilterItems(u8), /** map_triples / map_quads */ MapStmt, /** Source::filter_map_items */ FilterMapItems(u8), /** Source::map_items(..).into_iter() */ MapIter, /** filter_map_triples / filter_map_quads (..).into_iter() */ FilterMapIter(u8), /** to_quads / to_triples */ Convert }
+#[derive(Clone, Debug)]
+struct History { pre: Vec<MOp>, fin: Option<(Fin, Vec<MOp>)> }
+impl History {
+    fn describe(&self) -> String {
+        let ops = |v: &Vec<MOp>| v.iter().map(|o| format!("{o:?}")).collect::<Vec<_>>().join(", ");
+        match &self.fin { None => format!("[{}]", ops(&self.pre)), Some((f, post)) => format!("[{}] then {f:?} then [{}]", ops(&self.pre), ops(post)) }
+    }
+    /// the calls made on an adapter: try_for_each (at the level of the adapter) or size_hint; on an iterator: next or size_hint
+    fn normalised(mut self) -> History {
+        if let Some((fin, post)) = &mut self.fin {
+            let lv = if matches!(fin, Fin::FilterStmt(_)) { Lv::Stmt } else { Lv::Item };
+            for op in post.iter_mut() { *op = match *op { MOp::Hint(_) => MOp::Hint(lv), _ if matches!(fin, Fin::MapIter | Fin::FilterMapIter(_)) => MOp::ForSome(Lv::Item), MOp::TryEach(_, k) => MOp::TryEach(lv, k), MOp::TrySome(_, true) => MOp::TryEach(lv, Some(0)), _ => MOp::TryEach(lv, None) }; }
+            if matches!(fin, Fin::Collect | Fin::AddTo) { post.clear(); }
+        }
+        self
+    }
+}
+
+#[derive(Clone, Debug, PartialEq)]
+enum Res { More, End, Done, SrcErr(String), SinkErr, Hint(usize, Option<usize>), Count(usize), Panic(String) }
+#[derive(Clone, Debug)]
+struct Obs { stmts: Vec<String>, bad: Vec<String>, res: Res, /** the statements without their graph names */ spo: Vec<String> }
+fn obs_of(o: Outcome, res: Res) -> Obs { Obs { stmts: o.stmts, bad: o.bad, res, spo: o.spo_only } }
+
+/// what a map / filter_map closure hands on: the canonical text of the statement and the oracle's complaints about it
+struct Rendered { text: String, bad: Vec<String> }
+/// the item types of the parsers' sources (and of the map adapters built on them)
+trait HItem { fn rec(self, g: bool, out: &mut Outcome); }
+fn spo_text<Q: Quad>(q: &Q) -> String { let mut l = String::new(); for x in [q.s(), q.p(), q.o()] { l.push_str(&term_text(x)); l.push(' '); } l }
+/// The oracle of the history stream on one statement: the raw IRI strings first (public fields of the rio items, before any accessor runs),
+/// then every term through the toolkit's validators, then the canonical text (with and without the graph name).
+/// (The representation-specific checks of round 4 -- `Extra`, `consistency` -- run in run_recipe on every entry point and way of consuming.)
+fn see_light<T: Term>(spo: [T; 3], gname: Option<T>, g: bool, out: &mut Outcome) {
+    let mut line = String::new();
+    for x in spo.iter() { validate(x.borrow_term(), g, &mut out.bad); line.push_str(&term_text(x.borrow_term())); line.push(' '); }
+    out.spo_only.push(line.clone());
+    if let Some(gn) = gname { validate(gn.borrow_term(), g, &mut out.bad); line.push_str(&term_text(gn.borrow_term())); }
+    out.stmts.push(line); out.n += 1;
+}
+impl HItem for Trusted<rio_api::model::Triple<'_>> { #[inline(never)] fn rec(self, g: bool, out: &mut Outcome) { raw_scan_triple(self.0); see_light(self.spo(), None, g, out); } }
+impl HItem for Trusted<rio_api::model::Quad<'_>> { #[inline(never)] fn rec(self, g: bool, out: &mut Outcome) {
+    raw_scan_term(self.0.subject.into()); raw_note(self.0.predicate.iri); raw_scan_term(self.0.object); if let Some(rio_api::model::GraphName::NamedNode(n)) = self.0.graph_name { raw_note(n.iri); }
+    let (spo, gn) = self.spog(); see_light(spo, gn, g, out); } }
+impl HItem for Trusted<rio_api::model::GeneralizedQuad<'_>> { #[inline(never)] fn rec(self, g: bool, out: &mut Outcome) {
+    raw_scan(self.0.subject); raw_scan(self.0.predicate); raw_scan(self.0.object); if let Some(gn) = self.0.graph_name { raw_scan(gn); }
+    let (spo, gn) = self.spog(); see_light(spo, gn, g, out); } }
+impl HItem for Spog<RdfTerm> { #[inline(never)] fn rec(self, g: bool, out: &mut Outcome) { let (spo, gn) = self.spog(); see_light(spo, gn, g, out); } }
+impl HItem for Rendered { #[inline(never)] fn rec(self, _g: bool, out: &mut Outcome) { out.spo_only.push(self.text.clone()); out.stmts.push(self.text); out.bad.extend(self.bad); out.n += 1; } }
+#[inline(never)]
+fn render<I: HItem>(i: I, g: bool) -> Rendered { let mut o = Outcome::default(); i.rec(g, &mut o); Rendered { text: o.stmts.pop().unwrap_or_default(), bad: o.bad } }
+#[inline(never)]
+fn render_q<Q: Quad>(q: Q, g: bool) -> Rendered { let mut o = Outcome::default(); { let (spo, gn) = q.spog(); see(&spo, gn.as_ref(), g, &mut o); } Rendered { text: o.stmts.pop().unwrap_or_default(), bad: o.bad } }
+#[inline(never)]
+fn render_t<T: Triple>(t: T, g: bool) -> Rendered { let mut o = Outcome::default(); see(&t.spo(), None, g, &mut o); Rendered { text: o.stmts.pop().unwrap_or_default(), bad: o.bad } }
+/// the predicates of the filter adapters: by the number of items the predicate has seen so far
+fn keep(kind: u8, idx: usize) -> bool { match kind % 4 { 0 => true, 1 => idx % 2 == 0, 2 => false, _ => idx % 3 != 0 } }
+
+fn guard_op<F: FnOnce() -> Obs>(f: F) -> Obs {
+    match catch_unwind(AssertUnwindSafe(f)) { Ok(o) => o, Err(_) => Obs { stmts: vec![], bad: vec![], res: Res::Panic(LAST_PANIC.with(|l| l.borrow().clone()).chars().take(200).collect()), spo: vec![] } }
+}
+/// a sink that fails on its (k+1)-th call
+fn sink_after(seen: usize, k: Option<usize>) -> Result<(), MyErr> { match k { Some(k) if seen > k => Err(MyErr(seen as u64)), _ => Ok(()) } }
+/// every sink goes to the source as one of these two types (one compiled copy of the parser per method, not per closure)
+type DynTry<'a, S> = &'a mut dyn for<'x> FnMut(<S as Source>::Item<'x>) -> Result<(), MyErr>;
+type DynFor<'a, S> = &'a mut dyn for<'x> FnMut(<S as Source>::Item<'x>);
+
+/// the methods of Source itself
+fn item_op<S>(src: &mut S, op: MOp, g: bool) -> Obs
+where S: Source, for<'x> <S as Source>::Item<'x>: HItem {
+    let mut o = Outcome::default(); let mut seen = 0usize;
+    let k = match op { MOp::TrySome(_, true) => Some(0), MOp::TryEach(_, k) => k, _ => None };
+    let res = {
+        let mut fallible = |i: <S as Source>::Item<'_>| -> Result<(), MyErr> { i.rec(g, &mut o); seen += 1; sink_after(seen, k) };
+        match op {
+            MOp::TrySome(..) => { let f: DynTry<S> = &mut fallible; match src.try_for_some_item(f) { Ok(true) => Res::More, Ok(false) => Res::End, Err(SourceError(e)) => Res::SrcErr(short_err(e)), Err(SinkError(_)) => Res::SinkErr } }
+            MOp::TryEach(..) => { let f: DynTry<S> = &mut fallible; match src.try_for_each_item(f) { Ok(()) => Res::Done, Err(SourceError(e)) => Res::SrcErr(short_err(e)), Err(SinkError(_)) => Res::SinkErr } }
+            MOp::ForSome(_) => { let mut inf = |i: <S as Source>::Item<'_>| { let _ = fallible(i); }; let f: DynFor<S> = &mut inf; match src.for_some_item(f) { Ok(true) => Res::More, Ok(false) => Res::End, Err(e) => Res::SrcErr(short_err(e)) } }
+            MOp::ForEach(_) => { let mut inf = |i: <S as Source>::Item<'_>| { let _ = fallible(i); }; let f: DynFor<S> = &mut inf; match src.for_each_item(f) { Ok(()) => Res::Done, Err(e) => Res::SrcErr(short_err(e)) } }
+            MOp::Hint(_) => { let (lo, hi) = src.size_hint_items(); Res::Hint(lo, hi) }
+        }
+    };
+    obs_of(o, res)
+}
+/// the two calls made on an adapter returned by a consuming call: try_for_each_item, size_hint_items
+fn wrap_item_op<W>(w: &mut W, op: MOp, g: bool) -> Obs
+where W: Source, for<'x> <W as Source>::Item<'x>: HItem {
+    let mut o = Outcome::default(); let mut seen = 0usize;
+    let res = match op {
+        MOp::Hint(_) => { let (lo, hi) = w.size_hint_items(); Res::Hint(lo, hi) }
+        _ => { let k = if let MOp::TryEach(_, k) = op { k } else { None };
+            let mut fallible = |i: <W as Source>::Item<'_>| -> Result<(), MyErr> { i.rec(g, &mut o); seen += 1; sink_after(seen, k) };
+            let f: DynTry<W> = &mut fallible; match w.try_for_each_item(f) { Ok(()) => Res::Done, Err(SourceError(e)) => Res::SrcErr(short_err(e)), Err(SinkError(_)) => Res::SinkErr } }
+    };
+    obs_of(o, res)
+}
+/// the methods of TripleSource / QuadSource (Lv::Stmt), and those of Source (Lv::Item)
+macro_rules! stmt_op_impl { ($name:ident, $wrap:ident, $tr:ident, $try_some:ident, $try_each:ident, $some:ident, $each:ident, $hint:ident) => {
+    fn $name<S>(src: &mut S, op: MOp, g: bool) -> Obs
+    where S: $tr, for<'x> <S as Source>::Item<'x>: HItem {
+        let lv = match op { MOp::TrySome(l, _) | MOp::ForSome(l) | MOp::TryEach(l, _) | MOp::ForEach(l) | MOp::Hint(l) => l };
+        if lv == Lv::Item { return item_op(src, op, g); }
+        let mut o = Outcome::default(); let mut seen = 0usize;
+        let k = match op { MOp::TrySome(_, true) => Some(0), MOp::TryEach(_, k) => k, _ => None };
+        let res = {
+            let mut fallible = |i: <S as Source>::Item<'_>| -> Result<(), MyErr> { i.rec(g, &mut o); seen += 1; sink_after(seen, k) };
+            match op {
+                MOp::TrySome(..) => { let f: DynTry<S> = &mut fallible; match src.$try_some(f) { Ok(true) => Res::More, Ok(false) => Res::End, Err(SourceError(e)) => Res::SrcErr(short_err(e)), Err(SinkError(_)) => Res::SinkErr } }
+                MOp::TryEach(..) => { let f: DynTry<S> = &mut fallible; match src.$try_each(f) { Ok(()) => Res::Done, Err(SourceError(e)) => Res::SrcErr(short_err(e)), Err(SinkError(_)) => Res::SinkErr } }
+                MOp::ForSome(_) => { let mut inf = |i: <S as Source>::Item<'_>| { let _ = fallible(i); }; let f: DynFor<S> = &mut inf; match src.$some(f) { Ok(true) => Res::More, Ok(false) => Res::End, Err(e) => Res::SrcErr(short_err(e)) } }
+                MOp::ForEach(_) => { let mut inf = |i: <S as Source>::Item<'_>| { let _ = fallible(i); }; let f: DynFor<S> = &mut inf; match src.$each(f) { Ok(()) => Res::Done, Err(e) => Res::SrcErr(short_err(e)) } }
+                MOp::Hint(_) => { let (lo, hi) = src.$hint(); Res::Hint(lo, hi) }
+            }
+        };
+        obs_of(o, res)
+    }
+    /// the two calls made on the adapter of filter_triples / filter_quads: try_for_each_*, size_hint_*
+    fn $wrap<W>(w: &mut W, op: MOp, g: bool) -> Obs
+    where W: $tr, for<'x> <W as Source>::Item<'x>: HItem {
+        let mut o = Outcome::default(); let mut seen = 0usize;
+        let res = match op {
+            MOp::Hint(_) => { let (lo, hi) = w.$hint(); Res::Hint(lo, hi) }
+            _ => { let k = if let MOp::TryEach(_, k) = op { k } else { None };
+                let mut fallible = |i: <W as Source>::Item<'_>| -> Result<(), MyErr> { i.rec(g, &mut o); seen += 1; sink_after(seen, k) };
+                let f: DynTry<W> = &mut fallible; match w.$try_each(f) { Ok(()) => Res::Done, Err(SourceError(e)) => Res::SrcErr(short_err(e)), Err(SinkError(_)) => Res::SinkErr } }
+        };
+        obs_of(o, res)
+    }
+} }
+stmt_op_impl!(stmt_op_t, wrap_stmt_op_t, TripleSource, try_for_some_triple, try_for_each_triple, for_some_triple, for_each_triple, size_hint_triples);
+stmt_op_impl!(stmt_op_q, wrap_stmt_op_q, QuadSource, try_for_some_quad, try_for_each_quad, for_some_quad, for_each_quad, size_hint_quads);
+
+/// the calls of `ops` one after the other, each under catch_unwind; stops after a panic (the source is in no defined state then)
+macro_rules! run_ops { ($obs:ident, $ops:expr, $call:expr) => { for op in $ops.iter() { let ob = guard_op(|| $call(*op)); let stop = matches!(ob.res, Res::Panic(_)); $obs.push(ob); if stop { break; } } } }
+fn iter_ops<I: Iterator<Item = Result<Rendered, E>>, E: std::fmt::Display>(it: &mut I, post: &[MOp], obs: &mut Vec<Obs>) {
+    for op in post.iter() {
+        let ob = guard_op(|| match op {
+            MOp::Hint(_) => { let (lo, hi) = it.size_hint(); Obs { stmts: vec![], bad: vec![], res: Res::Hint(lo, hi), spo: vec![] } }
+            _ => match it.next() { Some(Ok(r)) => Obs { stmts: vec![r.text], bad: r.bad, res: Res::More, spo: vec![] }, Some(Err(e)) => Obs { stmts: vec![], bad: vec![], res: Res::SrcErr(short_err(e)), spo: vec![] }, None => Obs { stmts: vec![], bad: vec![], res: Res::End, spo: vec![] } },
+        });
+        let stop = matches!(ob.res, Res::Panic(_)); obs.push(ob); if stop { break; }
+    }
+}
+macro_rules! run_hist_impl { ($name:ident, $tr:ident, $stmt_op:ident, $wrap_stmt_op:ident, $collect:ident, $coll_ty:ty, $add:ident, $filter:ident, $map:ident, $filter_map:ident, $convert:ident, $render_conv:ident, $see_coll:expr) => {
+    fn $name<S>(mut src: S, h: &History, g: bool) -> Vec<Obs>
+    where S: $tr, for<'x> <S as Source>::Item<'x>: HItem + Clone {
+        let mut obs: Vec<Obs> = vec![];
+        run_ops!(obs, h.pre, |op| $stmt_op(&mut src, op, g));
+        if obs.iter().any(|o| matches!(o.res, Res::Panic(_))) { return obs; }
+        let Some((fin, post)) = &h.fin else { return obs; };
+        let side = std::cell::RefCell::new(Outcome::default());
+        let cnt = std::cell::Cell::new(0usize);
+        match *fin {
+            Fin::Collect => obs.push(guard_op(move || { let mut o = Outcome::default(); match src.$collect::<$coll_ty>() { Ok(v) => { for x in v.iter() { $see_coll(x, g, &mut o); } obs_of(o, Res::Done) } Err(SourceError(e)) => obs_of(o, Res::SrcErr(short_err(e))), Err(SinkError(e)) => { o.bad.push(format!("collecting into a Vec reported a sink error: {e}")); obs_of(o, Res::SinkErr) } } })),
+            Fin::AddTo => obs.push(guard_op(move || { let mut o = Outcome::default(); let mut v: $coll_ty = Default::default(); let r = src.$add(&mut v); for x in v.iter() { $see_coll(x, g, &mut o); } match r { Ok(n) => obs_of(o, Res::Count(n)), Err(SourceError(e)) => obs_of(o, Res::SrcErr(short_err(e))), Err(SinkError(e)) => { o.bad.push(format!("inserting into a Vec reported a sink error: {e}")); obs_of(o, Res::SinkErr) } } })),
+            Fin::FilterStmt(k) => { let mut w = src.$filter(|i| { i.clone().rec(g, &mut side.borrow_mut()); let n = cnt.get(); cnt.set(n + 1); keep(k, n) }); run_ops!(obs, post, |op| $wrap_stmt_op(&mut w, op, g)); }
+            Fin::FilterItems(k) => { let mut w = src.filter_items(|i| { i.clone().rec(g, &mut side.borrow_mut()); let n = cnt.get(); cnt.set(n + 1); keep(k, n) }); run_ops!(obs, post, |op| wrap_item_op(&mut w, op, g)); }
+            Fin::MapStmt => { let mut w = src.$map(|i| render(i, g)); run_ops!(obs, post, |op| wrap_item_op(&mut w, op, g)); }
+            Fin::FilterMapItems(k) => { let mut w = src.filter_map_items(|i| { let n = cnt.get(); cnt.set(n + 1); let r = render(i, g); if keep(k, n) { Some(r) } else { side.borrow_mut().bad.extend(r.bad); None } }); run_ops!(obs, post, |op| wrap_item_op(&mut w, op, g)); }
+            Fin::MapIter => { let mut it = src.map_items(|i| render(i, g)).into_iter(); iter_ops(&mut it, post, &mut obs); }
+            Fin::FilterMapIter(k) => { let mut it = src.$filter_map(|i| { let n = cnt.get(); cnt.set(n + 1); let r = render(i, g); if keep(k, n) { Some(r) } else { side.borrow_mut().bad.extend(r.bad); None } }).into_iter(); iter_ops(&mut it, post, &mut obs); }
+            Fin::Convert => { let mut w = src.$convert().map_items(|i| $render_conv(i, g)); run_ops!(obs, post, |op| wrap_item_op(&mut w, op, g)); }
+        }
+        // what the predicates / dropped items saw
+        let sb = side.into_inner().bad; if !sb.is_empty() { if let Some(last) = obs.last_mut() { last.bad.extend(sb); } }
+        obs
+    }
+} }
+fn see_coll_t(x: &[SimpleTerm<'static>; 3], g: bool, o: &mut Outcome) { see(x, None, g, o) }
+fn see_coll_q(x: &Spog<SimpleTerm<'static>>, g: bool, o: &mut Outcome) { see(&x.0, x.1.as_ref(), g, o) }
+run_hist_impl!(run_hist_t, TripleSource, stmt_op_t, wrap_stmt_op_t, collect_triples, Vec<[SimpleTerm<'static>; 3]>, add_to_graph, filter_triples, map_triples, filter_map_triples, to_quads, render_q, see_coll_t);
+run_hist_impl!(run_hist_q, QuadSource, stmt_op_q, wrap_stmt_op_q, collect_quads, Vec<Spog<SimpleTerm<'static>>>, add_to_dataset, filter_quads, map_quads, filter_map_quads, to_triples, render_t, see_coll_q);
+
+/// What the REQUIRED method gives on a fresh source: one entry per call of try_for_some_item (infallible sink) up to Ok(false).
+#[derive(Clone, Debug)]
+struct Step { stmts: Vec<String>, err: Option<String>, /** the statements without their graph names (what to_triples leaves) */ spo: Vec<String> }
+#[derive(Clone, Debug, Default)]
+struct Trace { steps: Vec<Step>, /** Ok(false) was reached */ complete: bool, /** why not */ stop: Option<String>, bad: Vec<String>, /** index of the first pull that delivered an invalid term */ bad_at: Option<usize>, panicked: bool }
+const TRACE_CAP: usize = 600;
+const TRACE_CAP_AFTER_ERROR: usize = 40;
+fn record_trace<S>(src: &mut S, g: bool) -> Trace
+where S: Source, for<'x> <S as Source>::Item<'x>: HItem {
+    let mut t = Trace::default(); let mut errs = 0usize;
+    loop {
+        let ob = guard_op(|| item_op(src, MOp::TrySome(Lv::Item, false), g));
+        if !ob.bad.is_empty() && t.bad_at.is_none() { t.bad_at = Some(t.steps.len()); }
+        t.bad.extend(ob.bad);
+        match ob.res {
+            Res::More => t.steps.push(Step { stmts: ob.stmts, err: None, spo: ob.spo }),
+            Res::SrcErr(e) => { t.steps.push(Step { stmts: ob.stmts, err: Some(e), spo: ob.spo }); errs += 1; }
+            Res::End => { if !ob.stmts.is_empty() { t.steps.push(Step { stmts: ob.stmts, err: None, spo: ob.spo }); } t.complete = true; break; }
+            Res::Panic(m) => { t.stop = Some(m); t.panicked = true; break; }
+            other => { t.stop = Some(format!("unexpected result {other:?}")); break; }
+        }
+        if t.steps.len() >= TRACE_CAP || errs >= TRACE_CAP_AFTER_ERROR { t.stop = Some(format!("not exhausted after {} calls ({errs} errors)", t.steps.len())); break; }
+    }
+    t
+}
+
+/// The behaviour every call must have, computed from the recorded steps (a transcription of the default methods of
+/// api/src/source.rs and of the adapters of api/src/source/{filter,map,filter_map,convert}.rs; the same in Coq: C08/Source.v)
+#[derive(Clone, Debug, PartialEq)]
+enum Ev { S(String), E(String) }
+struct Sim { steps: Vec<Step>, pos: usize, /** the state is not determined by the recording */ lost: bool, atomic: bool, complete: bool, buf: VecDeque<Ev> }
+impl Sim {
+    fn new(t: &Trace, atomic: bool) -> Sim { Sim { steps: t.steps.clone(), pos: 0, lost: false, atomic, complete: t.complete, buf: VecDeque::new() } }
+    fn remaining(&self) -> usize { self.steps[self.pos..].iter().map(|s| s.stmts.len()).sum() }
+    fn at_end(&mut self) -> bool { if self.pos >= self.steps.len() { if !self.complete { self.lost = true; } true } else { false } }
+    /// the wrapper built by filter_* / filter_map_* with predicate `kind` over what is left
+    fn filtered(&self, kind: u8) -> Sim {
+        let mut n = 0usize;
+        let steps = self.steps[self.pos..].iter().map(|s| Step { stmts: s.stmts.iter().filter(|_| { let k = keep(kind, n); n += 1; k }).cloned().collect(), err: s.err.clone(), spo: vec![] }).collect();
+        Sim { steps, pos: 0, lost: self.lost, atomic: self.atomic, complete: self.complete, buf: VecDeque::new() }
+    }
+    /// feeding `xs` to a sink that fails on its (k+1)-th call, `seen` calls made so far
+    fn feed(xs: &[String], seen: &mut usize, k: Option<usize>) -> (Vec<String>, bool) {
+        let mut d = vec![]; for x in xs { d.push(x.clone()); *seen += 1; if let Some(k) = k { if *seen > k { return (d, true); } } } (d, false)
+    }
+    fn some(&mut self, fail: bool) -> Option<(Vec<String>, Res)> {
+        if self.lost { return None; }
+        if self.at_end() { return if self.lost { None } else { Some((vec![], Res::End)) }; }
+        let st = self.steps[self.pos].clone(); self.pos += 1; let mut seen = 0;
+        let (d, failed) = Sim::feed(&st.stmts, &mut seen, if fail { Some(0) } else { None });
+        if failed { if !(self.atomic && st.stmts.len() == 1 && st.err.is_none()) { self.lost = true; } return Some((d, Res::SinkErr)); }
+        Some((d, match st.err { Some(e) => Res::SrcErr(e), None => Res::More }))
+    }
+    fn each(&mut self, k: Option<usize>) -> Option<(Vec<String>, Res)> {
+        if self.lost { return None; }
+        let mut all = vec![]; let mut seen = 0usize;
+        loop {
+            if self.at_end() { return if self.lost { None } else { Some((all, Res::Done)) }; }
+            let st = self.steps[self.pos].clone(); self.pos += 1;
+            let (d, failed) = Sim::feed(&st.stmts, &mut seen, k); all.extend(d);
+            if failed { if !(self.atomic && st.stmts.len() == 1 && st.err.is_none()) { self.lost = true; } return Some((all, Res::SinkErr)); }
+            if let Some(e) = st.err { return Some((all, Res::SrcErr(e))); }
+        }
+    }
+    fn expect(&mut self, op: MOp) -> Option<(Vec<String>, Res)> {
+        match op { MOp::TrySome(_, f) => self.some(f), MOp::ForSome(_) => self.some(false), MOp::TryEach(_, k) => self.each(k), MOp::ForEach(_) => self.each(None), MOp::Hint(_) => None }
+    }
+    /// MapSourceIterator::next / FilterMapSourceIterator::next
+    fn next(&mut self) -> Option<(Vec<String>, Res)> {
+        if self.lost { return None; }
+        let mut remaining = true;
+        while self.buf.is_empty() && remaining {
+            if self.at_end() { if self.lost { return None; } remaining = false; continue; }
+            let st = self.steps[self.pos].clone(); self.pos += 1;
+            for x in st.stmts { self.buf.push_back(Ev::S(x)); }
+            if let Some(e) = st.err { self.buf.push_back(Ev::E(e)); remaining = false; }
+        }
+        Some(match self.buf.pop_front() { Some(Ev::S(x)) => (vec![x], Res::More), Some(Ev::E(e)) => (vec![], Res::SrcErr(e)), None => (vec![], Res::End) })
+    }
+    /// size_hint contract: lower <= number of statements still to come <= upper
+    fn hint_ok(&self, lo: usize, hi: Option<usize>) -> Option<bool> {
+        if self.lost || !self.complete { return None; }
+        let r = self.remaining() + self.buf.iter().filter(|e| matches!(e, Ev::S(_))).count();
+        Some(lo <= r && hi.map_or(true, |h| r <= h))
+    }
+}
+/// The expected observation of every call of a history (None: not determined), given the steps of a fresh source
+fn expectations(t: &Trace, h: &History, atomic: bool, obs: &[Obs]) -> Vec<Option<(Vec<String>, Res)>> {
+    let mut sim = Sim::new(t, atomic); let mut out = vec![]; let mut i = 0usize;
+    let mut one = |sim: &mut Sim, op: MOp, iter: bool, out: &mut Vec<Option<(Vec<String>, Res)>>, i: &mut usize| {
+        let e = if let MOp::Hint(_) = op { match obs.get(*i).map(|o| &o.res) { Some(Res::Hint(lo, hi)) => match sim.hint_ok(*lo, *hi) { Some(true) | None => None, Some(false) => Some((vec![], Res::Hint(sim.remaining(), Some(sim.remaining())))) }, _ => None } } else if iter { sim.next() } else { sim.expect(op) };
+        out.push(e); *i += 1;
+    };
+    for op in &h.pre { one(&mut sim, *op, false, &mut out, &mut i); }
+    if let Some((fin, post)) = &h.fin {
+        match fin {
+            Fin::Collect => { let e = sim.each(None).map(|(s, r)| if matches!(r, Res::SrcErr(_)) { (vec![], r) } else { (s, r) }); out.push(e); }
+            Fin::AddTo => { let e = sim.each(None).map(|(s, r)| { let n = s.len(); (s, if r == Res::Done { Res::Count(n) } else { r }) }); out.push(e); }
+            Fin::FilterStmt(k) | Fin::FilterItems(k) | Fin::FilterMapItems(k) => { let mut w = sim.filtered(*k); for op in post { one(&mut w, *op, false, &mut out, &mut i); } }
+            Fin::MapStmt | Fin::Convert => { for op in post { one(&mut sim, *op, false, &mut out, &mut i); } }
+            Fin::MapIter => { for op in post { one(&mut sim, *op, true, &mut out, &mut i); } }
+            Fin::FilterMapIter(k) => { let mut w = sim.filtered(*k); for op in post { one(&mut w, *op, true, &mut out, &mut i); } }
+        }
+    }
+    out
+}
+
+/// something that is handed the source a parser returned
+trait Visit {
+    fn t<S>(&mut self, s: S) where S: TripleSource, for<'x> <S as Source>::Item<'x>: HItem + Clone;
+    fn q<S>(&mut self, s: S) where S: QuadSource, for<'x> <S as Source>::Item<'x>: HItem + Clone;
+}
+struct TraceRun { g: bool, trace: Trace }
+impl Visit for TraceRun {
+    fn t<S>(&mut self, mut s: S) where S: TripleSource, for<'x> <S as Source>::Item<'x>: HItem + Clone { self.trace = record_trace(&mut s, self.g); }
+    fn q<S>(&mut self, mut s: S) where S: QuadSource, for<'x> <S as Source>::Item<'x>: HItem + Clone { self.trace = record_trace(&mut s, self.g); }
+}
+struct HistRun<'h> { g: bool, h: &'h History, obs: Vec<Obs> }
+impl Visit for HistRun<'_> {
+    fn t<S>(&mut self, s: S) where S: TripleSource, for<'x> <S as Source>::Item<'x>: HItem + Clone { self.obs = run_hist_t(s, self.h, self.g); }
+    fn q<S>(&mut self, s: S) where S: QuadSource, for<'x> <S as Source>::Item<'x>: HItem + Clone { self.obs = run_hist_q(s, self.h, self.g); }
+}
+
+// ------------------------------------------------------------------------------------------------------
+// Round 6 (b): parser OPTIONS.  Every public option of every parser is a dimension of the configuration:
+// the base IRI of the Turtle family and of RDF/XML (None / several Some), every with_* of JsonLdOptions.
+// ------------------------------------------------------------------------------------------------------
+const BASES: [&str; 8] = ["http://base.example/dir/doc", "http://base.example/dir/doc?q=1#frag", "x:", "urn:a:b", "file:///tmp/", "http://[::1]/%C4%B0/", "http://base.example/a/../b/./c", "http://\u{e9}.example/\u{130}"];
+#[derive(Clone, Debug, Default, PartialEq)]
+struct JOpts {
+    /// 0 untouched, 1 with_processing_mode(JsonLd1_0), 2 with_processing_mode(JsonLd1_1)
+    mode: u8,
+    /// 0 untouched, 1.. with_base(BASES[k-1]), 9 with_no_base, 10 with_base then with_no_base
+    base: u8,
+    /// 0 untouched, 1.. try_with_expand_context(EXPAND_CTX[k-1]), then: with_expand_context(Iri of an in-memory context), with_expand_context(Iri nobody serves), with_expand_context then with_no_expand_context
+    ctx: u8,
+    ordered: Option<bool>,
+    /// 0 untouched, 1 I18nDatatype, 2 CompoundLiteral, 3 with_rdf_direction then with_no_rdf_direction
+    dir: u8,
+    generalized: Option<bool>,
+    /// 0 untouched, 1 Relaxed, 2 Standard, 3 Strict, 4 Strictest
+    policy: u8,
+    native: Option<bool>, rdf_type: Option<bool>, compact_arrays: Option<bool>, compact_to_relative: Option<bool>, spaces: Option<u16>,
+    /// 0 untouched, 1 try_with_compact_context, 2 with_compact_context(Iri), 3 then with_no_compact_context
+    cctx: u8,
+    /// 0 untouched (NoLoader), 1 with_default_document_loader::<NoLoader>, 2 with_document_loader_factory(DefaultLoaderFactory<NoLoader>), 3 with_document_loader_closure(NoLoader), 4 with_document_loader_closure(in-memory contexts),
+    /// 5 with_document_loader(StaticLoader::new()), 6 with_document_loader_factory(ClosureLoaderFactory(in-memory contexts)), 7 with_document_loader_closure(ChainLoader(NoLoader, in-memory contexts))
+    loader: u8,
+}
+const EXPAND_CTX: [&str; 6] = [
+    "{\"@context\": {\"@vocab\": \"http://vocab.example/\u{130}#\", \"@language\": \"tr\"}}",
+    "{\"@context\": {\"@vocab\": \"_:v\", \"xq\": \"_:xq\"}}",
+    "{\"@context\": {\"@base\": \"rel/base/\", \"@vocab\": \"\"}}",
+    "{\"@context\": {\"@direction\": \"rtl\", \"@language\": \"ar\", \"xd\": {\"@id\": \"_:xd\", \"@direction\": \"ltr\"}}}",
+    "{\"@context\": [{\"@version\": 1.1}, {\"@vocab\": \"rel-vocab/\", \"@propagate\": false}]}",
+    "{\"@context\": {\"@base\": null, \"@vocab\": \"#\"}}",
+];
+const MEM_CTX: [(&str, &str); 5] = [
+    ("http://ctx.example/a", "{\"@context\": {\"ma\": \"_:ma\", \"mb\": {\"@id\": \"http://ctx.example/mb\", \"@type\": \"@id\"}, \"@vocab\": \"http://ctx.example/v#\"}}"),
+    ("http://ctx.example/b", "{\"@context\": [\"http://ctx.example/a\", {\"@base\": \"../b/\", \"@direction\": \"rtl\"}]}"),
+    ("http://ctx.example/loop", "{\"@context\": [\"http://ctx.example/loop\"]}"),
+    ("http://ctx.example/broken", "{\"@context\": {\"x\": "),
+    ("http://ctx.example/no-context", "[1, 2]"),
+];
+fn mem_fetch(iri: Iri<String>) -> sophia_jsonld::loader::BoxFuture<'static, Result<String, String>> {
+    use sophia_jsonld::loader::FutureExt;
+    async move { match MEM_CTX.iter().find(|(u, _)| *u == iri.as_str()) { Some((_, d)) => Ok(d.to_string()), None => Err(format!("nobody serves {}", iri.as_str())) } }.boxed()
+}
+type MemLoader = sophia_jsonld::loader::ClosureLoader<fn(Iri<String>) -> sophia_jsonld::loader::BoxFuture<'static, Result<String, String>>>;
+fn mem_loader() -> MemLoader { sophia_jsonld::loader::ClosureLoader::new(mem_fetch as fn(Iri<String>) -> sophia_jsonld::loader::BoxFuture<'static, Result<String, String>>) }
+fn no_loader() -> sophia_jsonld::loader::NoLoader { sophia_jsonld::loader::NoLoader::new() }
+fn chain_loader() -> sophia_jsonld::loader::ChainLoader<sophia_jsonld::loader::NoLoader, MemLoader> { sophia_jsonld::loader::ChainLoader::new(no_loader(), mem_loader()) }
+fn arc_iri(s: &str) -> Iri<std::sync::Arc<str>> { Iri::new_unchecked(std::sync::Arc::from(s)) }
+fn apply_jopts<LF>(mut o: JsonLdOptions<LF>, j: &JOpts) -> JsonLdOptions<LF> {
+    use sophia_jsonld::{Policy, ProcessingMode, RdfDirection};
+    match j.mode { 1 => o = o.with_processing_mode(ProcessingMode::JsonLd1_0), 2 => o = o.with_processing_mode(ProcessingMode::JsonLd1_1), _ => {} }
+    match j.base { 0 => {} 9 => o = o.with_no_base(), 10 => o = o.with_base(arc_iri(BASES[0])).with_no_base(), k => o = o.with_base(arc_iri(BASES[(k as usize - 1) % BASES.len()])) }
+    let nx = EXPAND_CTX.len() as u8;
+    match j.ctx { 0 => {} k if k <= nx => { if let Ok(o2) = JsonLdOptions::new().try_with_expand_context(EXPAND_CTX[k as usize - 1]) { if let Some(c) = o2.expand_context() { o = o.with_expand_context(c.clone()); } } }
+        k if k == nx + 1 => o = o.with_expand_context(Iri::new_unchecked("http://ctx.example/a")), k if k == nx + 2 => o = o.with_expand_context(Iri::new_unchecked("http://ctx.example/b")),
+        k if k == nx + 3 => o = o.with_expand_context(Iri::new_unchecked("http://nobody.example/ctx")), k if k == nx + 4 => o = o.with_expand_context(Iri::new_unchecked("http://ctx.example/broken")),
+        _ => o = o.with_expand_context(Iri::new_unchecked("http://ctx.example/a")).with_no_expand_context() }
+    if let Some(b) = j.ordered { o = o.with_ordered(b); }
+    match j.dir { 1 => o = o.with_rdf_direction(RdfDirection::I18nDatatype), 2 => o = o.with_rdf_direction(RdfDirection::CompoundLiteral), 3 => o = o.with_rdf_direction(RdfDirection::CompoundLiteral).with_no_rdf_direction(), _ => {} }
+    if let Some(b) = j.generalized { o = o.with_produce_generalized_rdf(b); }
+    match j.policy { 1 => o = o.with_expansion_policy(Policy::Relaxed), 2 => o = o.with_expansion_policy(Policy::Standard), 3 => o = o.with_expansion_policy(Policy::Strict), 4 => o = o.with_expansion_policy(Policy::Strictest), _ => {} }
+    if let Some(b) = j.native { o = o.with_use_native_types(b); } if let Some(b) = j.rdf_type { o = o.with_use_rdf_type(b); }
+    if let Some(b) = j.compact_arrays { o = o.with_compact_arrays(b); } if let Some(b) = j.compact_to_relative { o = o.with_compact_to_relative(b); } if let Some(n) = j.spaces { o = o.with_spaces(n); }
+    match j.cctx { 1 => { if let Ok(o2) = JsonLdOptions::new().try_with_compact_context(EXPAND_CTX[0]) { if let Some(c) = o2.compact_context() { o = o.with_compact_context(c.clone()); } } } 2 => o = o.with_compact_context(Iri::new_unchecked("http://ctx.example/a")), 3 => o = o.with_compact_context(Iri::new_unchecked("http://ctx.example/a")).with_no_compact_context(), _ => {} }
+    o
+}
+impl JOpts {
+    fn generalized(&self) -> bool { self.generalized == Some(true) }
+    fn describe(&self) -> String { if *self == JOpts::default() { "JsonLdOptions::new()".to_string() } else { format!("{self:?}") } }
+    const NLOADERS: u8 = 8; const NCTX: u8 = 11; const NBASE: u8 = 11;
+}
+/// every single with_* on its own (each value), the combinations the notes name, and pairs with produce_generalized_rdf
+fn directed_jopts() -> Vec<JOpts> {
+    let d = JOpts::default(); let mut v = vec![d.clone()];
+    for k in 1..=2 { v.push(JOpts { mode: k, ..d.clone() }); }
+    for k in 1..JOpts::NBASE { v.push(JOpts { base: k, ..d.clone() }); }
+    for k in 1..=JOpts::NCTX { v.push(JOpts { ctx: k, loader: if k > EXPAND_CTX.len() as u8 && k % 2 == 0 { 4 } else { 0 }, ..d.clone() }); }
+    for b in [true, false] { v.push(JOpts { ordered: Some(b), ..d.clone() }); v.push(JOpts { generalized: Some(b), ..d.clone() }); v.push(JOpts { native: Some(b), ..d.clone() }); v.push(JOpts { rdf_type: Some(b), ..d.clone() }); v.push(JOpts { compact_arrays: Some(b), ..d.clone() }); v.push(JOpts { compact_to_relative: Some(b), ..d.clone() }); }
+    for k in 1..=3 { v.push(JOpts { dir: k, ..d.clone() }); v.push(JOpts { cctx: k, ..d.clone() }); }
+    for k in 1..=4 { v.push(JOpts { policy: k, ..d.clone() }); }
+    v.push(JOpts { spaces: Some(3), ..d.clone() });
+    for k in 1..JOpts::NLOADERS { v.push(JOpts { loader: k, ..d.clone() }); }
+    let n = v.len();
+    for i in 1..n { let mut j = v[i].clone(); if j.generalized.is_none() { j.generalized = Some(true); v.push(j); } }
+    for (mode, base, dir) in [(1u8, 9u8, 1u8), (2, 9, 2), (1, 3, 2), (2, 4, 1), (1, 0, 0)] { for pol in [1u8, 4] { v.push(JOpts { mode, base, dir, policy: pol, generalized: Some(true), ordered: Some(true), loader: 4, ..d.clone() }); } }
+    v
+}
+fn random_jopts(r: &mut Rng) -> JOpts {
+    let ob = |r: &mut Rng| match r.below(4) { 0 => Some(true), 1 => Some(false), _ => None };
+    JOpts { mode: r.below(3) as u8, base: if r.chance(1, 2) { 0 } else { r.below(JOpts::NBASE as usize) as u8 }, ctx: if r.chance(1, 2) { 0 } else { r.below(JOpts::NCTX as usize + 1) as u8 }, ordered: ob(r), dir: r.below(4) as u8,
+        generalized: match r.below(3) { 0 => None, 1 => Some(false), _ => Some(true) }, policy: r.below(5) as u8, native: ob(r), rdf_type: ob(r), compact_arrays: ob(r), compact_to_relative: ob(r), spaces: if r.chance(1, 5) { Some(r.below(9) as u16) } else { None }, cctx: if r.chance(1, 4) { r.below(4) as u8 } else { 0 }, loader: if r.chance(1, 2) { 0 } else { r.below(JOpts::NLOADERS as usize) as u8 } }
+}
+
+/// Build the parser of format `f` with the given options, hand `data` to it through entry point `e`, and give the source to `v`.
+/// Returns false when the entry point does not apply (parse_str on bytes that are not UTF-8 ...).
+fn open<V: Visit>(f: Fmt, base: Option<&str>, jopts: Option<&JOpts>, data: &[u8], e: Entry, failed: &std::rc::Rc<std::cell::Cell<bool>>, v: &mut V) -> bool {
+    let b: Option<Iri<String>> = base.map(|b| Iri::new_unchecked(b.to_string()));
+    let text = std::str::from_utf8(data).ok();
+    if e.needs_str() && text.is_none() { return false; }
+    if matches!(e, Entry::Opts(_)) || (e == Entry::Async && f != Fmt::JsonLd) { return false; }
+    if e.uses_default_parser() && (jopts.is_some() || (base.is_some() && !matches!(f, Fmt::Nt | Fmt::Nq | Fmt::Gnq))) { return false; }
+    macro_rules! entries {
+        ($meth:ident, $p:expr, $dflt:expr, $m:path) => {{
+            match e {
+                // (the readers behind one `dyn BufRead`: one source type per parser here, because every source type x closure compiles a copy of the
+                // parser; every concrete reader type, parse_str, the module-level functions and Default are driven by run_recipe)
+                Entry::Slice | Entry::Str | Entry::ModStr | Entry::ModBuf => v.$meth($p.parse(Box::new(data) as Box<dyn BufRead + '_>)),
+                Entry::Default => v.$meth($dflt.parse(Box::new(data) as Box<dyn BufRead + '_>)),
+                Entry::Buffered(n) => v.$meth($p.parse(Box::new(BufReader::with_capacity(n.max(1), data)) as Box<dyn BufRead + '_>)),
+                Entry::Cursor => v.$meth($p.parse(Box::new(Cursor::new(data.to_vec())) as Box<dyn BufRead + '_>)),
+                Entry::Feed { chunk, cut } => v.$meth($p.parse(Box::new(Feed::new(data, chunk, cut, None, failed.clone())) as Box<dyn BufRead + '_>)),
+                Entry::FailAt(k) => v.$meth($p.parse(Box::new(Feed::new(data, usize::MAX, None, Some(k), failed.clone())) as Box<dyn BufRead + '_>)),
+                Entry::Async | Entry::Opts(_) => unreachable!(),
+            }
+        }};
+    }
+    use sophia_turtle::parser::{gnq, gtrig, nq, nt, trig, turtle};
+    match f {
+        Fmt::Nt => entries!(t, nt::NTriplesParser {}, nt::NTriplesParser::default(), sophia_turtle::parser::nt),
+        Fmt::Nq => entries!(q, nq::NQuadsParser {}, nq::NQuadsParser::default(), sophia_turtle::parser::nq),
+        Fmt::Gnq => entries!(q, gnq::GNQuadsParser {}, gnq::GNQuadsParser::default(), sophia_turtle::parser::gnq),
+        Fmt::Turtle => entries!(t, turtle::TurtleParser { base: b.clone() }, turtle::TurtleParser::default(), sophia_turtle::parser::turtle),
+        Fmt::Trig => entries!(q, trig::TriGParser { base: b.clone() }, trig::TriGParser::default(), sophia_turtle::parser::trig),
+        Fmt::Gtrig => entries!(q, gtrig::GTriGParser { base: b.clone() }, gtrig::GTriGParser::default(), sophia_turtle::parser::gtrig),
+        Fmt::Xml => entries!(t, sophia_xml::parser::RdfXmlParser { base: b.clone() }, sophia_xml::parser::RdfXmlParser::default(), sophia_xml::parser),
+        Fmt::JsonLd => {
+            use sophia_jsonld::loader_factory::{ClosureLoaderFactory, DefaultLoaderFactory, LoaderFactory};
+            fn go<V: Visit, LF: LoaderFactory>(p: JsonLdParser<LF>, data: &[u8], text: Option<&str>, e: Entry, failed: &std::rc::Rc<std::cell::Cell<bool>>, v: &mut V) {
+                let _ = p.options();
+                match e {
+                    Entry::Slice => v.q(p.parse(data)),
+                    Entry::Str => v.q(p.parse_str(text.unwrap())),
+                    Entry::Buffered(n) => v.q(p.parse(Box::new(BufReader::with_capacity(n.max(1), data)) as Box<dyn BufRead + '_>)),
+                    Entry::Cursor => v.q(p.parse(Box::new(Cursor::new(data.to_vec())) as Box<dyn BufRead + '_>)),
+                    Entry::Feed { chunk, cut } => v.q(p.parse(Box::new(Feed::new(data, chunk, cut, None, failed.clone())) as Box<dyn BufRead + '_>)),
+                    Entry::FailAt(k) => v.q(p.parse(Box::new(Feed::new(data, usize::MAX, None, Some(k), failed.clone())) as Box<dyn BufRead + '_>)),
+                    Entry::Async => v.q(poll_to_end(p.async_parse_str(text.unwrap()))),
+                    Entry::ModStr => v.q(sophia_jsonld::parser::parse_str(text.unwrap())),
+                    Entry::ModBuf => v.q(sophia_jsonld::parser::parse_bufread(data)),
+                    Entry::Default => v.q(JsonLdParser::default().parse(data)),
+                    Entry::Opts(_) => unreachable!(),
+                }
+            }
+            match jopts {
+                None => { let p = match base { Some(b) => JsonLdParser::new_with_options(JsonLdOptions::new().with_base(arc_iri(b))), None => JsonLdParser::new() }; go(p, data, text, e, failed, v) }
+                Some(j) => { let o = apply_jopts(JsonLdOptions::new(), j);
+                    match j.loader % JOpts::NLOADERS {
+                        0 => go(JsonLdParser::new_with_options(o), data, text, e, failed, v),
+                        1 => go(JsonLdParser::new_with_options(o.with_default_document_loader::<sophia_jsonld::loader::NoLoader>()), data, text, e, failed, v),
+                        2 => go(JsonLdParser::new_with_options(o.with_document_loader_factory(DefaultLoaderFactory::<sophia_jsonld::loader::NoLoader>::new())), data, text, e, failed, v),
+                        3 => go(JsonLdParser::new_with_options(o.with_document_loader_closure(no_loader as fn() -> sophia_jsonld::loader::NoLoader)), data, text, e, failed, v),
+                        4 => go(JsonLdParser::new_with_options(o.with_document_loader_closure(mem_loader as fn() -> MemLoader)), data, text, e, failed, v),
+                        5 => go(JsonLdParser::new_with_options(o.with_document_loader(sophia_jsonld::loader::StaticLoader::new())), data, text, e, failed, v),
+                        6 => go(JsonLdParser::new_with_options(o.with_document_loader_factory(ClosureLoaderFactory::new(mem_loader as fn() -> MemLoader))), data, text, e, failed, v),
+                        _ => go(JsonLdParser::new_with_options(o.with_document_loader_closure(chain_loader as fn() -> sophia_jsonld::loader::ChainLoader<sophia_jsonld::loader::NoLoader, MemLoader>)), data, text, e, failed, v),
+                    } }
+            }
+        }
+    }
+    true
+}
+
+// ------------------------------------------------------------------------------------------------------
+// Documents of the history stream: valid and broken units of every format in any order (an error before, between and
+// after valid statements; only errors; nothing); documents for the options (relative IRIs, @base directives).
+// ------------------------------------------------------------------------------------------------------
+/// (text before the units, valid units, broken units, separator, text after the units)
+fn units(f: Fmt) -> (&'static str, Vec<&'static str>, Vec<&'static str>, &'static str, &'static str) {
+    match f {
+        Fmt::Nt => ("", vec!["<http://e/s> <http://e/p> <http://e/o> .\n", "_:b <http://e/p> \"x\"@en .\n", "<http://e/s> <http://e/p> \"1\"^^<http://e/dt> . # c\n", "# only a comment\n", "<< <http://e/s> <http://e/p> <http://e/o> >> <http://e/q> \"z\" .\n", "\n"],
+            vec!["<http://e/s> <http://e/p> .\n", "garbage\n", "<http://e/a b> <http://e/p> <http://e/o> .\n", "\"lit\" <http://e/p> <http://e/o> .\n", "_:a..b <http://e/p> <http://e/o> .\n", "<http://e/s> <http://e/p> \"unterminated\n", "<http://e/s> <http://e/p> \"x\"@- .\n", "<http://e/s> <http://e/p> <rel> .\n", "<http://e/s> <http://e/p> <http://e/o> <http://e/g> .\n", "<http://e/s> <http://e/p> \"\\u12\" .\n", "<< <http://e/s> <http://e/p> >> <http://e/q> <http://e/o> .\n"], "", ""),
+        Fmt::Nq => ("", vec!["<http://e/s> <http://e/p> <http://e/o> <http://e/g> .\n", "_:b <http://e/p> \"x\"@en _:g .\n", "<http://e/s> <http://e/p> \"1\"^^<http://e/dt> .\n", "# only a comment\n", "<http://e/s> <http://e/p> << _:a <http://e/p> \"z\" >> <http://e/g> .\n"],
+            vec!["<http://e/s> <http://e/p> .\n", "garbage\n", "<http://e/s> <http://e/p> <http://e/o> \"lit\" .\n", "<http://e/s> <http://e/p> <http://e/o> <http://e/g> <http://e/h> .\n", "_:a. <http://e/p> <http://e/o> .\n", "<http://e/s> <http://e/p> \"unterminated\n", "<http://e/s> <http://e/p> <http://e/o> <rel> .\n", "<http://e/s> ?p <http://e/o> .\n"], "", ""),
+        Fmt::Gnq => ("", vec!["<http://e/s> <http://e/p> ?v <http://e/g> .\n", "\"lit\" _:p ?o ?g .\n", "<rel> <../p> <#o> .\n", "# only a comment\n", "<< ?s <http://e/p> \"x\"@en >> <rel> <<_:a _:b _:c>> \"g\" .\n", "<http://e/s> <http://e/p> <http://e/o> .\n"],
+            vec!["<http://e/s> <http://e/p> .\n", "garbage\n", "<http://e/s> <http://e/p> <http://e/o> <http://e/g> <http://e/h> .\n", "<http://e/a b> ?p ?o .\n", "?s ?p \"unterminated\n", "?s ?p ?o ?g ?h .\n", "? ?p ?o .\n", "<< ?s ?p >> ?p ?o .\n", "_:a..b ?p ?o ?g .\n"], "", ""),
+        Fmt::Turtle => ("@prefix : <http://e/ns#> .\n", vec!["<http://e/s> <http://e/p> <http://e/o> , \"x\"@en ; <http://e/q> ( 1 2 ) .\n", ":a :b [ :c :d ; :e 1.5 ] .\n", "<< :a :b :c >> :d :e .\n", "@prefix x: <http://x.example/> .\n", "<rel> <../p> <#o> .\n", "@base <sub/dir/> .\n", "<> :p <?q=1> , <//h.example/x> .\n", ":s :p :o {| :src <http://e/src> |} .\n", "# only a comment\n", "[] a :C .\n"],
+            vec!["<http://e/s> <http://e/p> .\n", "und:x :p :o .\n", "<http://e/s> :p ( 1 2 .\n", "@prefix y <http://y.example/> .\n", "<http://e/s> :p \"a\"@ .\n", "[ :p :o \n", "}\n", "<http://e/s> :p :o ; ; , .\n", ":s :p <http://e/a b> .\n", ":s :p \"unterminated .\n", ":s :p :o1 , :o2 , .\n", "<< :a :b >> :c :d .\n", ":s :p _:a..b .\n", "@base <::> .\n", ":s :p 1.5.e .\n"], "", ""),
+        Fmt::Trig => ("@prefix : <http://e/ns#> .\n", vec![":g { :s :p :o , \"l\"@en ; :q ( :a :b ) . :s2 :p2 :o2 }\n", "GRAPH _:g { [] :p [ :q 1 ] }\n", "{ :s :p << :a :b :c >> }\n", "<http://e/s> <http://e/p> <http://e/o> .\n", "<rel> <../p> <#o> .\n", "@base <sub/dir/> .\n", "<g2> { <> :p <?q=1> }\n", "# only a comment\n"],
+            vec![":g { :s :p }\n", ":g { :s :p :o \n", "und:x :p :o .\n", "GRAPH { :s :p :o }\n", "}\n", ":g { :s :p :o } }\n", "\"lit\" { :s :p :o }\n", ":g { :g2 { :s :p :o } }\n", ":s :p <http://e/a b> .\n", ":g { :s :p :o1 , :o2 , . }\n", "@prefix y <http://y.example/> .\n", "{ :s :p _:a..b }\n"], "", ""),
+        Fmt::Gtrig => ("@prefix : <http://e/ns#> .\n", vec!["?g { ?s a :P ; :name ?n . \"lit\" :p [ ?q ( ?x 1 ) ] }\n", "<http://e/me> :knows _:alice {| :since 2002 |} .\n", ":a :b << :c ?p \"o\" >> .\n", "<rel> <../p> <#o> .\n", "@base <http://b.example/sub/> .\n", "\"s\" ?p 1 .\n", "# only a comment\n", "GRAPH ?g { ?s ?p ?o }\n"],
+            vec![":g { :s :p }\n", "?s ?p .\n", "und:x :p :o .\n", "}\n", "?g { ?s ?p ?o \n", ":s :p \"unterminated .\n", "? ?p ?o .\n", ":s :p :o1 , :o2 , .\n", "<< :a :b >> :c :d .\n", "@prefix y <http://y.example/> .\n", "?s ?p ( 1 2 .\n"], "", ""),
+        Fmt::Xml => ("<?xml version=\"1.0\"?>\n<rdf:RDF xmlns:rdf=\"http://www.w3.org/1999/02/22-rdf-syntax-ns#\" xmlns:e=\"http://e/ns#\">\n",
+            vec![" <rdf:Description rdf:about=\"http://e/s\"><e:p>v</e:p><e:q xml:lang=\"en\">w</e:q></rdf:Description>\n", " <e:C rdf:nodeID=\"b1\"><e:p rdf:resource=\"http://e/o\"/></e:C>\n", " <rdf:Description rdf:about=\"rel\" xml:base=\"http://b.example/x/\"><e:p rdf:resource=\"../o\"/></rdf:Description>\n", " <rdf:Description rdf:about=\"http://e/s\"><e:c rdf:parseType=\"Collection\"><rdf:Description rdf:about=\"http://e/a\"/><rdf:Description rdf:about=\"http://e/b\"/></e:c></rdf:Description>\n", " <!-- a comment -->\n", " <rdf:Description rdf:about=\"http://e/s\"><e:t rdf:parseType=\"Resource\"><e:u rdf:datatype=\"http://e/dt\">1</e:u></e:t><e:i rdf:ID=\"st1\">reified</e:i></rdf:Description>\n", " <rdf:Description rdf:about=\"relative-without-base\"><e:p rdf:resource=\"#frag\"/></rdf:Description>\n"],
+            vec![" <rdf:Description rdf:about=\"http://e/s\"><e:p></e:q></rdf:Description>\n", " <rdf:Description rdf:about=\"http://e/s\" rdf:nodeID=\"b\"/>\n", " <rdf:Description><e:p rdf:resource=\"http://e/x\" rdf:parseType=\"Literal\"/></rdf:Description>\n", " <<<\n", " <rdf:Description><e:p>&undefined;</e:p></rdf:Description>\n", " <rdf:Description rdf:about=\"http://e/s\"><rdf:Description/></rdf:Description>\n", " <rdf:Description><e:p rdf:nodeID=\"1 x\"/></rdf:Description>\n", " <rdf:Description rdf:bagID=\"x\"/>\n", " <rdf:Description><rdf:RDF/></rdf:Description>\n", " <rdf:Description><e:p xml:lang=\"!!\">v</e:p></rdf:Description>\n", " <rdf:Description rdf:about=\"http://e/s\"><e:p rdf:ID=\"same\">a</e:p><e:p rdf:ID=\"same\">b</e:p></rdf:Description>\n", " <rdf:li/>\n", " </rdf:Description>\n"], "", "</rdf:RDF>\n"),
+        Fmt::JsonLd => ("{\"@context\": {\"e\": \"http://e/ns#\"}, \"@graph\": [\n",
+            vec!["{\"@id\": \"http://e/s\", \"e:p\": \"v\"}", "{\"@id\": \"_:b\", \"e:p\": {\"@id\": \"http://e/o\"}}", "{\"@id\": \"http://e/s2\", \"e:q\": [1, true, {\"@list\": [\"a\"]}]}", "{\"@id\": \"rel\", \"e:p\": {\"@id\": \"../o\"}}", "{\"@id\": \"http://e/g\", \"@graph\": [{\"@id\": \"http://e/s3\", \"e:p\": {\"@value\": \"x\", \"@language\": \"en-US\"}}]}", "{}"],
+            vec!["{\"@id\": 42}", "{\"@id\": \"http://e/s\", \"e:p\": {\"@value\": \"x\", \"@language\": 1}}", "{\"@context\": {\"@type\": \"@id\"}, \"e:p\": 1}", "{\"@context\": \"http://nobody.example/ctx\", \"e:p\": 1}", "{\"e:p\": ", "{\"@id\": \"http://e/s\", \"@reverse\": 1}", "{\"e:p\": \"\u{0}\\ud800\"}", "{\"e:p\": {\"@value\": [1]}}", "{\"e:p\": {\"@list\": 1, \"@id\": \"x\"}}", "{\"@context\": {\"x\": {\"@id\": \"e:x\", \"@container\": \"@bogus\"}}}", "]", "{\"@context\": 42}", "{\"e:p\": {\"@value\": \"x\", \"@type\": \"_:dt\"}}"], ",\n", "\n]}\n"),
+    }
+}
+/// a document made of units: (valid?, index into the pool)
+fn unit_doc(f: Fmt, pattern: &[(bool, usize)]) -> Vec<u8> {
+    let (pre, ok, ko, sep, post) = units(f);
+    let mut s = String::from(pre);
+    for (i, (valid, k)) in pattern.iter().enumerate() { if i > 0 { s.push_str(sep); } s.push_str(if *valid { ok[k % ok.len()] } else { ko[k % ko.len()] }); }
+    s.push_str(post); s.into_bytes()
+}
+
+/// JSON-LD documents that exercise what the options enable: (context entries needed, member of the node object)
+const FEATURES: [(&[&str], &str); 64] = [
+    (&[], "\"_:p\": \"o2\""), (&[], "\"_:p2\": {\"@id\": \"_:o\"}"), (&["\"q\": \"_:q\""], "\"q\": {\"@id\": \"tag:o3\"}"), (&["\"e\": \"http://e/ns#\""], "\"e:p\": \"o1\""),
+    (&["\"@vocab\": \"_:\""], "\"plain\": \"bnode vocab\""), (&["\"@vocab\": \"\""], "\"plain2\": \"empty relative vocab\""), (&["\"@vocab\": \"rel/\""], "\"plain3\": {\"@id\": \"x\"}"), (&["\"@vocab\": \"#\""], "\"plain4\": 1"),
+    (&[], "\"rel/path\": \"x\""), (&[], "\"../rel\": 1"), (&["\"d\": {\"@id\": \"http://e/d\", \"@direction\": \"ltr\"}"], "\"d\": \"text\""), (&[], "\"http://e/dir\": {\"@value\": \"abc\", \"@direction\": \"rtl\"}"),
+    (&[], "\"http://e/dir2\": {\"@value\": \"abc\", \"@direction\": \"ltr\", \"@language\": \"EN-us\"}"), (&[], "\"http://e/dir3\": {\"@value\": \"abc\", \"@direction\": \"up\"}"), (&["\"@direction\": \"rtl\"", "\"@language\": \"ar\""], "\"http://e/dir4\": [\"x\", {\"@value\": \"y\", \"@direction\": null}]"), (&["\"r\": {\"@reverse\": \"_:rev\"}"], "\"r\": {\"@id\": \"http://e/r\"}"),
+    (&["\"r2\": {\"@reverse\": \"http://e/r2\"}"], "\"r2\": \"literal under reverse\""), (&[], "\"@reverse\": {\"_:rv\": {\"@id\": \"http://e/x\"}, \"relrev\": {\"@id\": \"_:y\"}}"), (&["\"bl\": {\"@id\": \"_:bl\", \"@container\": \"@list\"}"], "\"bl\": [1, \"two\", {\"@id\": \"rel3\"}]"), (&["\"bt\": {\"@id\": \"_:bt\", \"@type\": \"@id\"}"], "\"bt\": [\"_:target\", \"relative/target\"]"),
+    (&["\"j\": {\"@id\": \"http://e/j\", \"@type\": \"@json\"}"], "\"j\": {\"a\": [1, 2.50, null, {\"z\": \"\\u00e9\"}]}"), (&["\"lm\": {\"@id\": \"_:lm\", \"@container\": \"@language\"}"], "\"lm\": {\"en\": \"x\", \"!!\": \"bad tag\", \"@none\": \"n\", \"a-b-c-d-e-f-g-h-toolongsubtag\": \"y\"}"), (&["\"ix\": {\"@id\": \"_:ix\", \"@container\": \"@index\"}"], "\"ix\": {\"k1\": \"v1\", \"k2\": {\"@id\": \"_:iv\"}}"), (&["\"gr\": {\"@id\": \"http://e/gr\", \"@container\": \"@graph\"}"], "\"gr\": {\"@id\": \"_:gn\", \"_:gp\": \"in graph\"}"),
+    (&["\"idm\": {\"@id\": \"_:idm\", \"@container\": \"@id\"}"], "\"idm\": {\"relid\": {\"_:x\": 1}, \"http://e/abs\": {\"http://e/y\": 2}}"), (&["\"tm\": {\"@id\": \"_:tm\", \"@container\": \"@type\"}"], "\"tm\": {\"http://e/T\": {\"@id\": \"_:typed\"}, \"_:BT\": {\"http://e/z\": 1}, \"relT\": {}}"), (&["\"n\": \"@nest\""], "\"n\": {\"_:nested\": true, \"http://e/n2\": 1.5e300}"), (&["\"sc\": {\"@id\": \"http://e/sc\", \"@context\": {\"inner\": \"_:inner\", \"@vocab\": \"_:v\"}}"], "\"sc\": {\"inner\": \"scoped\", \"other\": \"vocab-scoped\"}"),
+    (&[], "\"@type\": \"_:Type\""), (&[], "\"@type\": [\"relType\", \"http://e/T\", \"_:T2\"]"), (&[], "\"@included\": [{\"@id\": \"rel-inc\", \"_:ip\": \"i\"}]"), (&[], "\"@graph\": [{\"@id\": \"_:g1\", \"_:gp2\": {\"@list\": []}}, {\"@id\": \"relg\", \"relp\": 1}]"),
+    (&[], "\"http://e/num\": [1e21, -0.0, 1.0E-7, 123456789012345678901234567890, 0.1, 1E400]"), (&[], "\"http://e/lang\": [{\"@value\": \"v\", \"@language\": \"a-very-long-subtag-x\"}, {\"@value\": \"v\", \"@language\": \"en_US\"}, {\"@value\": \"v\", \"@language\": \"\"}]"), (&[], "\"http://e/typed\": {\"@value\": \"v\", \"@type\": \"rel-dt\"}"), (&[], "\"http://e/typed2\": {\"@value\": \"v\", \"@type\": \"_:dt\"}"),
+    (&["\"vt\": {\"@id\": \"http://e/vt\", \"@type\": \"@vocab\"}", "\"plain-term\": \"_:pt\""], "\"vt\": [\"plain-term\", \"undefined-term\"]"), (&[], "\"http://e/idrel\": [{\"@id\": \"?q=1#f\"}, {\"@id\": \"//host/p\"}, {\"@id\": \"\"}, {\"@id\": \"../../..\"}]"), (&[], "\"http://e/idbad\": [{\"@id\": \"http://e/a b\"}, {\"@id\": \"_:\"}, {\"@id\": \"_:a..b\"}, {\"@id\": \"_:a b\"}, {\"@id\": \"http://e/<x>\"}]"), (&[], "\"http://e/set\": {\"@set\": [\"a\", {\"@list\": [[\"nested\"], []]}]}"),
+    (&[], "\"http://e/abs p\": \"space in the property IRI\""), (&[], "\"_:b.\": 1"), (&[], "\"_:\": 2"), (&[], "\"_:a b\": 3"),
+    (&[], "\"_:a..b\": {\"@id\": \"_:c.\"}"), (&["\"bad\": \"_:x y\""], "\"bad\": 1"), (&["\"@base\": \"../up/\""], "\"http://e/b1\": {\"@id\": \"x\"}"), (&["\"@base\": null"], "\"http://e/b2\": {\"@id\": \"x\"}"),
+    (&["\"@base\": \"rel-base/\""], "\"http://e/b3\": {\"@id\": \"x\", \"@type\": \"T\"}"), (&["\"@version\": 1.1"], "\"http://e/v\": {\"@id\": \"x\"}"), (&["\"@version\": 1.0"], "\"http://e/v\": 1"), (&["\"pp\": {\"@id\": \"_:pp\", \"@protected\": true}"], "\"pp\": {\"@context\": {\"pp\": \"http://e/other\"}, \"pp\": 1}"),
+    (&["\"ty\": \"@type\"", "\"id\": \"@id\""], "\"ty\": \"_:aliased\", \"http://e/al\": {\"id\": \"rel-aliased\"}"), (&["\"@import\": \"http://ctx.example/a\""], "\"ma\": \"imported bnode term\""), (&["\"@propagate\": false", "\"np\": \"_:np\""], "\"np\": {\"np\": \"not propagated\"}"), (&["\"pre\": {\"@id\": \"_:pre\", \"@prefix\": true}"], "\"pre:suffix\": 1"),
+    (&["\"rel\": {\"@id\": \"relprop\"}"], "\"rel\": 1"), (&["\"kw\": {\"@id\": \"@graph\"}"], "\"kw\": [{\"_:kp\": 1}]"), (&["\"nul\": null", "\"@vocab\": \"_:v#\""], "\"nul\": 1, \"notnul\": 2"), (&[], "\"http://e/emptylist\": {\"@list\": []}, \"_:el\": {\"@list\": [{\"@list\": [1]}]}"),
+    (&["\"cl\": {\"@id\": \"_:cl\", \"@container\": [\"@graph\", \"@id\"]}"], "\"cl\": {\"relgraph\": {\"_:in\": 1}, \"@none\": {\"_:in2\": 2}}"), (&["\"ls\": {\"@id\": \"_:ls\", \"@container\": [\"@language\", \"@set\"], \"@direction\": \"rtl\"}"], "\"ls\": {\"ar\": [\"x\", \"y\"]}"), (&["\"ni\": {\"@id\": \"_:ni\", \"@index\": \"_:prop\", \"@container\": \"@index\"}"], "\"ni\": {\"k\": {\"@id\": \"_:n\"}}"), (&[], "\"@id\": \"http://e/second-id\""),
+];
+const TOP_IDS: [&str; 8] = ["\"@id\": \"tag:s\"", "\"@id\": \"_:s\"", "\"@id\": \"rel/s\"", "\"@id\": \"\"", "\"@id\": \"#frag\"", "\"@id\": \"_:s.\"", "", "\"@id\": \"http://e/\u{130}\""];
+/// how the context is given: inline object, array with an in-memory context first / last, only a remote reference
+fn feature_doc(feats: &[usize], top: usize, ctx_form: usize, extra_ctx: &[usize]) -> Vec<u8> {
+    let mut ctx: Vec<&str> = vec![]; let mut keys: Vec<String> = vec![]; let mut body: Vec<&str> = vec![];
+    let key_of = |m: &str| m.split(':').next().unwrap_or("").trim().to_string();
+    let mut add_ctx = |c: &'static str, ctx: &mut Vec<&str>, keys: &mut Vec<String>| { let k = format!("ctx {}", key_of(c)); if !keys.contains(&k) { keys.push(k); ctx.push(c); } };
+    for &fi in feats { let (cs, _) = FEATURES[fi % FEATURES.len()]; for c in cs.iter() { add_ctx(c, &mut ctx, &mut keys); } }
+    for &fi in extra_ctx { let (cs, _) = FEATURES[fi % FEATURES.len()]; for c in cs.iter() { add_ctx(c, &mut ctx, &mut keys); } }
+    let t = TOP_IDS[top % TOP_IDS.len()]; if !t.is_empty() { body.push(t); keys.push("\"@id\"".to_string()); }
+    for &fi in feats { let (_, m) = FEATURES[fi % FEATURES.len()]; let k = key_of(m); if !keys.contains(&k) { keys.push(k); body.push(m); } }
+    let inline = format!("{{{}}}", ctx.join(", "));
+    let c = match ctx_form % 6 { 0 | 1 | 2 => inline, 3 => format!("[\"http://ctx.example/a\", {inline}]"), 4 => format!("[{inline}, \"http://ctx.example/b\"]"), _ => format!("[{inline}, null, {inline}]") };
+    format!("{{\"@context\": {c}, {}}}", body.join(", ")).into_bytes()
+}
+
+#[derive(Clone, Debug)]
+enum HDoc { Units(Vec<(bool, usize)>), Poly(Box<Recipe>), Feature { feats: Vec<usize>, top: usize, ctx_form: usize, extra: Vec<usize> } }
+#[derive(Clone, Debug)]
+struct HCase { f: Fmt, base: Option<usize>, jopts: Option<JOpts>, entry: Entry, doc: HDoc, hist: History }
+impl HCase {
+    fn data(&self) -> (Vec<u8>, String) {
+        match &self.doc {
+            HDoc::Units(p) => (unit_doc(self.f, p), format!("units {}", p.iter().map(|(v, k)| format!("{}{k}", if *v { "ok" } else { "BROKEN" })).collect::<Vec<_>>().join(" "))),
+            HDoc::Poly(rc) => materialize(rc),
+            HDoc::Feature { feats, top, ctx_form, extra } => (feature_doc(feats, *top, *ctx_form, extra), format!("JSON-LD features {feats:?}, top-level id #{top}, context form {ctx_form}, extra context of {extra:?}")),
+        }
+    }
+    fn generalized(&self) -> bool { self.f.generalized() || self.jopts.as_ref().map_or(false, |j| j.generalized()) }
+    fn base_str(&self) -> Option<&'static str> { self.base.map(|k| BASES[k % BASES.len()]) }
+}
+/// sink failures leave these sources in a defined state (one statement per call of the required method, taken before the sink runs)
+fn atomic_steps(f: Fmt) -> bool { matches!(f, Fmt::Nt | Fmt::Nq | Fmt::JsonLd) }
+/// third-party rio_turtle parsers whose behaviour when pulled again after an error is the known finding after-error-rio-turtle
+fn rio_turtle_after_error(f: Fmt) -> bool { matches!(f, Fmt::Turtle | Fmt::Trig | Fmt::Gtrig | Fmt::Gnq) }
+
+const ALL_MOPS: [MOp; 9] = [MOp::TrySome(Lv::Item, false), MOp::TrySome(Lv::Item, true), MOp::ForSome(Lv::Item), MOp::TryEach(Lv::Item, None), MOp::TryEach(Lv::Item, Some(0)), MOp::TryEach(Lv::Item, Some(1)), MOp::ForEach(Lv::Item), MOp::Hint(Lv::Item), MOp::TryEach(Lv::Item, Some(3))];
+fn at_level(op: MOp, l: Lv) -> MOp { match op { MOp::TrySome(_, b) => MOp::TrySome(l, b), MOp::ForSome(_) => MOp::ForSome(l), MOp::TryEach(_, k) => MOp::TryEach(l, k), MOp::ForEach(_) => MOp::ForEach(l), MOp::Hint(_) => MOp::Hint(l) } }
+const ALL_FINS: [Fin; 14] = [Fin::Collect, Fin::AddTo, Fin::FilterStmt(0), Fin::FilterStmt(1), Fin::FilterItems(3), Fin::FilterItems(2), Fin::MapStmt, Fin::FilterMapItems(0), Fin::FilterMapItems(3), Fin::MapIter, Fin::FilterMapIter(1), Fin::FilterMapIter(2), Fin::Convert, Fin::FilterMapIter(0)];
+fn random_mop(r: &mut Rng) -> MOp { let l = if r.chance(1, 2) { Lv::Item } else { Lv::Stmt }; at_level(match r.below(10) { 0 => MOp::TrySome(l, false), 1 => MOp::TrySome(l, true), 2 => MOp::ForSome(l), 3 | 4 => MOp::TryEach(l, None), 5 => MOp::TryEach(l, Some(r.below(4))), 6 | 7 => MOp::ForEach(l), 8 => MOp::Hint(l), _ => MOp::ForSome(l) }, l) }
+fn random_history(r: &mut Rng) -> History {
+    let pre: Vec<MOp> = (0..r.below(5)).map(|_| random_mop(r)).collect();
+    let fin = if r.chance(1, 2) { None } else { let f = *r.pick(&ALL_FINS); let n = match f { Fin::Collect | Fin::AddTo => 0, Fin::MapIter | Fin::FilterMapIter(_) => 2 + r.below(12), _ => 1 + r.below(4) }; Some((f, (0..n).map(|_| random_mop(r)).collect())) };
+    let mut h = History { pre, fin }; if h.fin.is_none() { for _ in 0..1 + r.below(3) { h.pre.push(random_mop(r)); } } h.normalised()
+}
+fn random_pattern(r: &mut Rng) -> Vec<(bool, usize)> { (0..r.below(6)).map(|_| (r.chance(3, 5), r.below(64))).collect() }
+fn random_hcase(base: &Rng, k: usize) -> HCase {
+    let mut r = base.fork(4_000_000 + k as u64);
+    let f = FMTS[r.below(8)];
+    let doc = match r.below(10) { 0 | 1 => { let mut rc = random_recipe(base, k); rc.alts.clear(); HDoc::Poly(Box::new(rc)) } 2 | 3 if f == Fmt::JsonLd => HDoc::Feature { feats: (0..1 + r.below(4)).map(|_| r.below(FEATURES.len())).collect(), top: r.below(TOP_IDS.len()), ctx_form: r.below(6), extra: (0..r.below(3)).map(|_| r.below(FEATURES.len())).collect() }, _ => HDoc::Units(random_pattern(&mut r)) };
+    let f = if let HDoc::Poly(rc) = &doc { rc.parser } else { f };
+    let jopts = if f == Fmt::JsonLd && r.chance(1, 2) { Some(random_jopts(&mut r)) } else { None };
+    let bs = if matches!(f, Fmt::Nt | Fmt::Nq | Fmt::Gnq) || jopts.is_some() || r.chance(1, 3) { None } else { Some(r.below(BASES.len())) };
+    let entry = loop { let e = random_entry(&mut r, f, bs.is_some(), 200); if !matches!(e, Entry::Opts(_)) && !(e.uses_default_parser() && jopts.is_some()) { break e; } };
+    HCase { f, base: bs, jopts, entry, doc, hist: random_history(&mut r) }
+}
+/// the systematic part: for every parser and every shape of document (valid / error first / in the middle / last / only errors / empty),
+/// every ordered pair of calls followed by a drain, every consuming call after nothing / after an error / after exhaustion, each followed by repeated calls
+fn directed_hcases(thorough: bool) -> Vec<HCase> {
+    let mut v = vec![];
+    let pats: Vec<Vec<(bool, usize)>> = vec![vec![(true, 0), (true, 1), (true, 2)], vec![(false, 0), (true, 0), (true, 1)], vec![(true, 0), (false, 1), (true, 2), (true, 4)], vec![(true, 1), (true, 2), (false, 2)], vec![(false, 3), (false, 4)], vec![], vec![(true, 4), (false, 5), (false, 6), (true, 5), (false, 7), (true, 3)], vec![(true, 6), (true, 7), (false, 8), (true, 8), (true, 9)], vec![(false, 9), (true, 2), (false, 10), (false, 11), (true, 0)], vec![(true, 3), (false, 12), (true, 1), (false, 13), (false, 14)]];
+    let entries = [Entry::Slice, Entry::Str, Entry::Feed { chunk: 1, cut: None }, Entry::FailAt(60), Entry::Buffered(3), Entry::Cursor, Entry::FailAt(0), Entry::Feed { chunk: usize::MAX, cut: Some(31) }];
+    for (fi, f) in FMTS.iter().enumerate() { for (pi, p) in pats.iter().enumerate() {
+        for (i, a) in ALL_MOPS.iter().enumerate() { for (j, b) in ALL_MOPS.iter().enumerate() {
+            if !thorough && pi >= 4 && !(if pi < 6 { i == j || j == 6 || i == 3 } else { (i * 9 + j + pi + fi) % 9 == 0 }) { continue; }
+            let k = v.len();
+            let (la, lb) = [(Lv::Item, Lv::Item), (Lv::Stmt, Lv::Item), (Lv::Item, Lv::Stmt), (Lv::Stmt, Lv::Stmt)][(i + j + pi + fi) % 4];
+            let tail = [MOp::ForEach(Lv::Item), MOp::TryEach(Lv::Stmt, None), MOp::ForSome(Lv::Stmt), MOp::TryEach(Lv::Item, None)][k % 4];
+            let base = if matches!(f, Fmt::Nt | Fmt::Nq | Fmt::Gnq) || k % 3 == 0 { None } else { Some(k % BASES.len()) };
+            v.push(HCase { f: *f, base, jopts: None, entry: entries[(k / 3) % entries.len()], doc: HDoc::Units(p.clone()), hist: History { pre: vec![at_level(*a, la), at_level(*b, lb), tail, at_level(*b, la), tail], fin: None } });
+        } }
+        for (ci, fin) in ALL_FINS.iter().enumerate() { for (qi, pre) in [vec![], vec![MOp::TryEach(Lv::Item, None)], vec![MOp::ForEach(Lv::Stmt), MOp::ForEach(Lv::Item), MOp::TryEach(Lv::Item, None), MOp::ForEach(Lv::Stmt)], vec![MOp::TrySome(Lv::Stmt, true), MOp::Hint(Lv::Stmt)], vec![MOp::TryEach(Lv::Stmt, Some(0))]].iter().enumerate() {
+            if !thorough && (ci + qi + pi + fi) % (if pi < 4 { 2 } else { 5 }) != 0 { continue; }
+            let k = v.len();
+            let post: Vec<MOp> = match fin { Fin::Collect | Fin::AddTo => vec![], Fin::MapIter | Fin::FilterMapIter(_) => { let mut x = vec![MOp::ForSome(Lv::Item); 10]; x.insert(3, MOp::Hint(Lv::Item)); x.push(MOp::Hint(Lv::Item)); x } _ => vec![[MOp::TryEach(Lv::Item, None), MOp::ForEach(Lv::Stmt), MOp::TryEach(Lv::Stmt, Some(1)), MOp::ForSome(Lv::Item)][k % 4], MOp::Hint(Lv::Stmt), MOp::TryEach(Lv::Stmt, None), MOp::ForEach(Lv::Item), MOp::ForSome(Lv::Stmt), MOp::TryEach(Lv::Item, None), MOp::Hint(Lv::Item)] };
+            let base = if matches!(f, Fmt::Nt | Fmt::Nq | Fmt::Gnq) || k % 3 == 1 { None } else { Some(k % BASES.len()) };
+            v.push(HCase { f: *f, base, jopts: None, entry: entries[(k / 2) % entries.len()], doc: HDoc::Units(p.clone()), hist: History { pre: pre.clone(), fin: Some((*fin, post)) }.normalised() });
+        } }
+    } }
+    // every base of the pool (and none) on the documents with relative IRIs and @base directives / xml:base, every way of consuming once and twice
+    for f in [Fmt::Turtle, Fmt::Trig, Fmt::Gtrig, Fmt::Xml] { for b in std::iter::once(None).chain((0..BASES.len()).map(Some)) { for (pi, p) in [vec![(true, 4), (true, 5), (true, 6), (true, 0)], vec![(true, 2), (true, 6), (true, 4)], vec![(true, 6), (false, 13), (true, 4), (true, 2)], vec![(true, 5), (true, 4), (false, 0), (true, 6)]].iter().enumerate() {
+        let k = v.len();
+        v.push(HCase { f, base: b, jopts: None, entry: entries[k % entries.len()], doc: HDoc::Units(p.clone()), hist: History { pre: vec![ALL_MOPS[(k + pi) % ALL_MOPS.len()], MOp::ForEach(Lv::Stmt), MOp::TryEach(Lv::Item, None)], fin: Some((ALL_FINS[k % ALL_FINS.len()], vec![MOp::ForEach(Lv::Item); 2])) }.normalised() });
+    } } }
+    // JSON-LD: every single option value (and each together with produce_generalized_rdf) on every feature, alone and in groups
+    let jo = directed_jopts();
+    let hists = [History { pre: vec![MOp::ForEach(Lv::Stmt), MOp::TryEach(Lv::Item, None)], fin: None }, History { pre: vec![MOp::TryEach(Lv::Item, None), MOp::TryEach(Lv::Stmt, None), MOp::Hint(Lv::Item)], fin: Some((Fin::Collect, vec![])) }, History { pre: vec![MOp::Hint(Lv::Item), MOp::ForSome(Lv::Item)], fin: Some((Fin::MapIter, vec![MOp::ForSome(Lv::Item); 6])) }, History { pre: vec![], fin: Some((Fin::Collect, vec![])) }];
+    for fi in 0..FEATURES.len() { for (ji, j) in jo.iter().enumerate() {
+        if !thorough && (fi * 7 + ji) % 8 != 0 && !(j.generalized() && (fi + ji) % 3 == 0) && ji != 0 { continue; }
+        let k = v.len();
+        v.push(HCase { f: Fmt::JsonLd, base: None, jopts: Some(j.clone()), entry: [Entry::Slice, Entry::Str, Entry::Async, Entry::Cursor][k % 4], doc: HDoc::Feature { feats: vec![fi], top: (fi + ji) % TOP_IDS.len(), ctx_form: (fi + ji) % 6, extra: vec![] }, hist: hists[k % hists.len()].clone() });
+    } }
+    for (ji, j) in jo.iter().enumerate() { for g in 0..(if thorough { 16 } else { 4 }) {
+        let k = v.len(); let feats: Vec<usize> = (0..4).map(|x| (ji * 5 + g * 17 + x * 13) % FEATURES.len()).collect();
+        v.push(HCase { f: Fmt::JsonLd, base: None, jopts: Some(j.clone()), entry: [Entry::Slice, Entry::Str, Entry::Async, Entry::Buffered(7)][k % 4], doc: HDoc::Feature { feats, top: k % TOP_IDS.len(), ctx_form: k % 6, extra: vec![(ji + g) % FEATURES.len()] }, hist: hists[k % hists.len()].clone() });
+        // and the unit documents (errors of every kind) under every option
+        if g < 2 { v.push(HCase { f: Fmt::JsonLd, base: None, jopts: Some(j.clone()), entry: Entry::Slice, doc: HDoc::Units(pats[(ji + g) % pats.len()].clone()), hist: History { pre: vec![MOp::TryEach(Lv::Item, None), MOp::TryEach(Lv::Item, None), MOp::ForEach(Lv::Stmt)], fin: Some((Fin::AddTo, vec![])) } }); }
+    } }
+    v
+}
+
+fn normalised(t: &Trace, obs: &[Obs], h: &History, f: Fmt) -> (Trace, Vec<Obs>) {
+    let (mut t, mut obs) = (t.clone(), obs.to_vec());
+    if matches!(h.fin, Some((Fin::Convert, _))) {
+        for s in t.steps.iter_mut() { if s.spo.len() == s.stmts.len() { s.stmts = s.spo.clone(); } }
+        for o in obs.iter_mut().take(h.pre.len()) { if o.spo.len() == o.stmts.len() { o.stmts = o.spo.clone(); } }
+    }
+    if f == Fmt::JsonLd { for s in t.steps.iter_mut() { for x in s.stmts.iter_mut() { *x = "a statement".to_string(); } } for o in obs.iter_mut() { for x in o.stmts.iter_mut() { *x = "a statement".to_string(); } } }
+    (t, obs)
+}
+/// Coq text of a history case: statements and error messages are numbered in order of first appearance
+struct Interner { map: std::collections::HashMap<String, usize> }
+impl Interner { fn id(&mut self, s: &str) -> usize { let n = self.map.len(); *self.map.entry(s.to_string()).or_insert(n) } }
+fn coq_nlist(v: &[usize]) -> String { format!("[{}]", v.iter().map(|x| x.to_string()).collect::<Vec<_>>().join("; ")) }
+fn coq_hist_case(t: &Trace, h: &History, atomic: bool, obs: &[Obs]) -> String {
+    let mut it = Interner { map: Default::default() };
+    let steps = t.steps.iter().map(|s| format!("({}, {})", coq_nlist(&s.stmts.iter().map(|x| it.id(x)).collect::<Vec<_>>()), match &s.err { Some(e) => format!("SFail {}", it.id(&format!("error: {e}"))), None => "SMore".to_string() })).collect::<Vec<_>>().join("; ");
+    let op = |o: &MOp| match o { MOp::TrySome(_, f) => format!("OSome {}", coq_bool(*f)), MOp::ForSome(_) => "OSome false".to_string(), MOp::TryEach(_, Some(k)) => format!("OEach (Some {k})"), MOp::TryEach(_, None) | MOp::ForEach(_) => "OEach None".to_string(), MOp::Hint(_) => "OHint".to_string() };
+    let ops = |v: &Vec<MOp>| format!("[{}]", v.iter().map(op).collect::<Vec<_>>().join("; "));
+    let (fin, post) = match &h.fin { None => ("FNone".to_string(), "[]".to_string()), Some((f, p)) => (match f { Fin::Collect => "FCollect".to_string(), Fin::AddTo => "FAddTo".to_string(), Fin::FilterStmt(k) | Fin::FilterItems(k) | Fin::FilterMapItems(k) => format!("(FFilter {})", k % 4), Fin::MapStmt | Fin::Convert => "FMap".to_string(), Fin::MapIter => "FIter".to_string(), Fin::FilterMapIter(k) => format!("(FFilterIter {})", k % 4) }, ops(p)) };
+    let ob = obs.iter().map(|o| format!("({}, {})", coq_nlist(&o.stmts.iter().map(|x| it.id(x)).collect::<Vec<_>>()), match &o.res { Res::More => "RMore".to_string(), Res::End => "REnd".to_string(), Res::Done => "RDone".to_string(), Res::SrcErr(e) => format!("RSrcErr {}", it.id(&format!("error: {e}"))), Res::SinkErr => "RSinkErr".to_string(), Res::Hint(lo, hi) => format!("RHint {lo} {}", match hi { Some(h) => format!("(Some {h})"), None => "None".to_string() }), Res::Count(n) => format!("RCount {n}"), Res::Panic(_) => "RPanic".to_string() })).collect::<Vec<_>>().join("; ");
+    format!("hist_ok {} [{steps}] {} {fin} {post} [{ob}]", coq_bool(atomic), ops(&h.pre))
+}
+
+struct HistCtx<'a> { sum: &'a mut Summary, profile: &'static str, verbose: bool, coq_cases: Vec<(usize, String)>, coq_budget: usize }
+fn run_hcase(id: usize, hc: &HCase, cx: &mut HistCtx) {
+    let (data, what_doc) = hc.data();
+    let (f, profile, g) = (hc.f, cx.profile, hc.generalized());
+    let shown = String::from_utf8_lossy(&data).to_string();
+    watch(id as u64);
+    let what = format!("{}; {}; {what_doc}", match (&hc.jopts, hc.base_str()) { (Some(j), _) => format!("options {}", j.describe()), (None, Some(b)) => format!("base IRI {b}"), (None, None) => if matches!(f, Fmt::Nt | Fmt::Nq | Fmt::Gnq) { "parser without base notion".to_string() } else { "no base IRI".to_string() } }, format!("entry point {:?}", hc.entry));
+    let failed = std::rc::Rc::new(std::cell::Cell::new(false));
+    // the required method on a fresh source
+    RAW_INVALID_IRI.with(|x| *x.borrow_mut() = None);
+    let mut tr = TraceRun { g, trace: Trace::default() };
+    let opened = catch_unwind(AssertUnwindSafe(|| open(f, hc.base_str(), hc.jopts.as_ref(), &data, hc.entry, &failed, &mut tr)));
+    let raw1 = RAW_INVALID_IRI.with(|x| x.borrow().clone());
+    cx.sum.evaluations += 1;
+    let std_tag = |about_iri: bool, raw: Option<&str>| if gtrig_no_base_iriref(f, hc.base.is_some(), hc.entry, about_iri, raw, &shown) { "[gtrig-no-base-unvalidated-iriref] " } else if pname_char_outside_ucschar(f, hc.entry, about_iri, raw, &shown) { "[turtle-pname-char-outside-ucschar] " } else { "" };
+    let about_iri_panic = |m: &str| m.contains("rio/src/model.rs") && m.contains("IriRef::new(n.iri)");
+    let about_iri_bad = |b: &str| b.starts_with("IRI \"") && (b.ends_with("is not a valid IRI reference") || b.ends_with("is not a valid absolute IRI"));
+    let mut fails: Vec<String> = vec![];
+    let trace = match opened {
+        Ok(false) => { cx.sum.bump("history:entry-not-applicable"); return; }
+        Err(_) => { let m: String = LAST_PANIC.with(|l| l.borrow().clone()).chars().take(200).collect(); fails.push(format!("{}parser {f:?} PANICKED ({profile} build): {m}; while the parser was building its source; {what}; input {shown:?}", std_tag(about_iri_panic(&m), raw1.as_deref()))); None }
+        Ok(true) => Some(tr.trace),
+    };
+    if let Some(t) = &trace {
+        let first_err = t.steps.iter().position(|s| s.err.is_some());
+        let after = |at: usize| first_err.map_or(false, |e| at > e);
+        if t.panicked { let m = t.stop.clone().unwrap_or_default(); let at = t.steps.len();
+            let tag = if after(at) && rio_turtle_after_error(f) { "[after-error-rio-turtle] " } else { std_tag(about_iri_panic(&m), raw1.as_deref()) };
+            fails.push(format!("{tag}parser {f:?} PANICKED ({profile} build): {m}; in call #{} of try_for_some_item on a fresh source{}; {what}; input {shown:?}", at + 1, if after(at) { format!(", after call #{} had reported an error", first_err.unwrap() + 1) } else { String::new() })); }
+        if let (Some(b), Some(at)) = (t.bad.first(), t.bad_at) {
+            let tag = if after(at) && rio_turtle_after_error(f) { "[after-error-rio-turtle] " } else { std_tag(about_iri_bad(b), raw1.as_deref()) };
+            fails.push(format!("{tag}parser {f:?} ({profile} build) yielded an invalid term: {b}; in call #{} of try_for_some_item on a fresh source{}; {what}; input {shown:?}", at + 1, if after(at) { format!(", after call #{} had reported an error", first_err.unwrap() + 1) } else { String::new() })); }
+        if !t.complete && !t.panicked { cx.sum.bump(&format!("history:{f:?}:not-exhausted-within-the-cap")); }
+        cx.sum.bump(&format!("history:{f:?}:{}", match (first_err.is_some(), t.steps.iter().any(|s| !s.stmts.is_empty())) { (true, true) => "statements-and-errors", (true, false) => "errors-only", (false, true) => "statements-only", _ => "nothing" }));
+        let nerr = t.steps.iter().filter(|s| s.err.is_some()).count(); if nerr > 1 { cx.sum.bump(&format!("history:{f:?}:several-errors-reported")); }
+        if t.steps.iter().any(|s| !s.stmts.is_empty()) || nerr > 0 { cx.sum.distinct_nontrivial += 1; }
+    }
+    // the history on another fresh source
+    RAW_INVALID_IRI.with(|x| *x.borrow_mut() = None);
+    let failed2 = std::rc::Rc::new(std::cell::Cell::new(false));
+    let mut hr = HistRun { g, h: &hc.hist, obs: vec![] };
+    let opened2 = catch_unwind(AssertUnwindSafe(|| open(f, hc.base_str(), hc.jopts.as_ref(), &data, hc.entry, &failed2, &mut hr)));
+    let raw2 = RAW_INVALID_IRI.with(|x| x.borrow().clone()).or(raw1.clone());
+    cx.sum.evaluations += 1;
+    let hd = hc.hist.describe();
+    if opened2.is_err() { let m: String = LAST_PANIC.with(|l| l.borrow().clone()).chars().take(200).collect(); if trace.is_some() { fails.push(format!("{}parser {f:?} PANICKED ({profile} build): {m}; outside the guarded calls of the history {hd}; {what}; input {shown:?}", std_tag(about_iri_panic(&m), raw2.as_deref()))); } }
+    let obs = hr.obs;
+    let ops: Vec<String> = { let mut v: Vec<String> = hc.hist.pre.iter().map(|o| format!("{o:?}")).collect(); if let Some((fin, post)) = &hc.hist.fin { match fin { Fin::Collect | Fin::AddTo => v.push(format!("{fin:?}")), Fin::MapIter | Fin::FilterMapIter(_) => v.extend(post.iter().map(|o| if let MOp::Hint(_) = o { format!("{fin:?}.into_iter().size_hint()") } else { format!("{fin:?}.into_iter().next()") })), _ => v.extend(post.iter().map(|o| format!("{o:?} on the result of {fin:?}"))) } } v };
+    // oracle on every call: no panic, valid terms; an error reported by an earlier call of this history?
+    let mut reported: Option<usize> = None;
+    for (i, o) in obs.iter().enumerate() {
+        let opname = ops.get(i).cloned().unwrap_or_default();
+        let hist_note = |reported: Option<usize>| format!("in call #{} ({opname}) of the history {hd}{}", i + 1, match reported { Some(j) => format!(", after call #{} had reported an error", j + 1), None => String::new() });
+        cx.sum.bump(&format!("history-call:{}", opname.split(|c: char| !c.is_alphanumeric()).next().unwrap_or("")));
+        if let Res::Panic(m) = &o.res {
+            let tag = if reported.is_some() && rio_turtle_after_error(f) { "[after-error-rio-turtle] " } else { std_tag(about_iri_panic(m), raw2.as_deref()) };
+            fails.push(format!("{tag}parser {f:?} PANICKED ({profile} build): {m}; {}; {what}; input {shown:?}", hist_note(reported)));
+        }
+        if let Some(b) = o.bad.first() {
+            // an error met inside this very call (iterators, for_each) precedes nothing: the statements of a call come before its error
+            let tag = if reported.is_some() && rio_turtle_after_error(f) { "[after-error-rio-turtle] " } else { std_tag(about_iri_bad(b), raw2.as_deref()) };
+            fails.push(format!("{tag}parser {f:?} ({profile} build) yielded an invalid term: {b}; {}; {what}; input {shown:?}", hist_note(reported)));
+        }
+        if reported.is_some() { cx.sum.bump(&format!("history:{f:?}:call-after-an-error:{}", match &o.res { Res::Panic(_) => "panicked", _ if !o.bad.is_empty() => "invalid-term", Res::SrcErr(_) => "error-again", Res::End | Res::Done | Res::Count(_) if o.stmts.is_empty() => "ended", Res::Hint(..) => "hint", _ => "more-statements" })); }
+        if matches!(o.res, Res::SrcErr(_) | Res::SinkErr) && reported.is_none() { reported = Some(i); }
+    }
+    // every call against the required method on a fresh source
+    if let Some(t) = &trace { if !obs.is_empty() {
+        let atomic = atomic_steps(f);
+        // what is compared: the statements as delivered; without their graph names when the history goes through to_triples;
+        // for JSON-LD only how many there are (the order of the quads and the numbering of its blank nodes differ from one parse to the next)
+        let (t, obs) = &normalised(t, &obs, &hc.hist, f);
+        let exp = expectations(t, &hc.hist, atomic, &obs);
+        let mut rep: Option<usize> = None;
+        for (i, o) in obs.iter().enumerate() {
+            if matches!(o.res, Res::Panic(_)) { break; }
+            if let Some(Some((stmts, res))) = exp.get(i) {
+                let same = if let Res::Hint(..) = res { false } else { *stmts == o.stmts && *res == o.res };
+                if !same {
+                    let tag = if rep.is_some() && rio_turtle_after_error(f) { "[after-error-rio-turtle] " } else { "" };
+                    let show = |s: &Vec<String>, r: &Res| format!("{} statement(s) {:?} and {r:?}", s.len(), s.iter().take(3).collect::<Vec<_>>());
+                    fails.push(if let Res::Hint(n, _) = res { format!("{tag}parser {f:?} ({profile} build): the size hint {:?} of call #{} ({}) of the history {hd} excludes the {n} statement(s) that try_for_some_item delivers from there on a fresh source; {what}; input {shown:?}", o.res, i + 1, ops.get(i).cloned().unwrap_or_default()) }
+                        else { format!("{tag}parser {f:?} ({profile} build): call #{} ({}) of the history {hd} gave {}, but the required method try_for_some_item on a fresh source determines {}{}; {what}; input {shown:?}", i + 1, ops.get(i).cloned().unwrap_or_default(), show(&o.stmts, &o.res), show(stmts, res), match rep { Some(j) => format!(" (call #{} had reported an error)", j + 1), None => String::new() }) });
+                    break;
+                }
+            }
+            if matches!(o.res, Res::SrcErr(_) | Res::SinkErr) && rep.is_none() { rep = Some(i); }
+        }
+        if t.complete && cx.coq_budget > 0 && !obs.iter().any(|o| matches!(o.res, Res::Panic(_))) && t.steps.len() <= 60 && (id % 11 == 0 || id < 5_000_000) { cx.coq_budget -= 1; cx.coq_cases.push((id, coq_hist_case(t, &hc.hist, atomic, &obs))); }
+    } }
+    if failed.get() || failed2.get() { cx.sum.bump("history:reader-failure-reached"); }
+    if cx.verbose {
+        println!("CASE {id}: parser {f:?}; {what}; history {hd}; input {shown:?}");
+        if let Some(t) = &trace { println!("  try_for_some_item on a fresh source: complete {}, stop {:?}", t.complete, t.stop); for (i, s) in t.steps.iter().enumerate() { println!("    #{}: {} statement(s) {:?}, error {:?}", i + 1, s.stmts.len(), s.stmts, s.err); } }
+        for (i, o) in obs.iter().enumerate() { println!("  call #{} {}: {} statement(s) {:?}, {:?}, complaints {:?}", i + 1, ops.get(i).cloned().unwrap_or_default(), o.stmts.len(), o.stmts, o.res, o.bad); }
+        for x in &fails { println!("  FAIL {x}"); }
+    }
+    if cx.sum.samples.len() < 12 && id % 997 == 3 { cx.sum.samples.push(format!("case {id}: {f:?}; {what}; history {hd}: {} call(s) observed", obs.len())); }
+    cx.sum.bump(&format!("history-count:{f:?}:{}", if id >= 5_000_000 { "directed" } else { "random" }));
     for x in fails { cx.sum.oracle_failures.push((id.to_string(), x)); }
 }
 
@@ -1082,9 +1866,23 @@ fn main() {
         } } }
         return;
     }
+    // replay mode: --jsonld <base option 0..10> <produce_generalized_rdf 0|1> <file>  runs the JSON-LD parser with these options on the bytes of the file
+    if a.rest.first().map(|s| s.as_str()) == Some("--jsonld") {
+        std::panic::set_hook(Box::new(|info| { LAST_PANIC.with(|l| *l.borrow_mut() = format!("{info}").replace('\n', " ")); }));
+        let j = JOpts { base: a.rest[1].parse().unwrap(), generalized: if a.rest[2] == "1" { Some(true) } else { None }, ..JOpts::default() };
+        let data = std::fs::read(&a.rest[3]).unwrap();
+        let failed = std::rc::Rc::new(std::cell::Cell::new(false));
+        let mut tr = TraceRun { g: j.generalized(), trace: Trace::default() };
+        match catch_unwind(AssertUnwindSafe(|| open(Fmt::JsonLd, None, Some(&j), &data, Entry::Slice, &failed, &mut tr))) {
+            Ok(_) => { println!("options {}: complete {}, stop {:?}, complaints {:?}", j.describe(), tr.trace.complete, tr.trace.stop, tr.trace.bad); for s in &tr.trace.steps { println!("  {:?} {:?}", s.stmts, s.err); } }
+            Err(_) => println!("options {}: PANICKED {}", j.describe(), LAST_PANIC.with(|l| l.borrow().clone())),
+        }
+        return;
+    }
     let mut sum = Summary::default();
     sum.rule = "case = (parser, input) where input is a valid seed document, one of its single-edit mutants (deletion, truncation, byte flip, insertion of a byte), a splice of a format-specific dictionary token (delimiters, escapes, unusual IRIs incl. IPv6 hosts, bad labels/tags, XML/JSON constructs), or invalid UTF-8; plus a directed stream of short inputs (the empty input, every 1-byte input, 2-byte inputs over 28 interesting bytes -- all 65 536 in the thorough tier --, prefixes and repetitions of the UTF-8 byte-order mark, BOM-prefixed valid documents and their truncations) through every parser; plus deep nesting (collections, property lists, quoted triples, XML elements, JSON arrays) in a subprocess on a 2 MiB thread; \
 plus (round 4) a polyglot stream and a directed stream: a document (seed, generated from the grammar with non-ASCII characters inside IRIs / labels / tags / names / literals, token soup, random bytes) of any format, wrapped in another syntax (32 wrappers: HTML script data blocks, XML/CDATA envelopes, JSON strings, JSONP, Markdown, HTTP/MIME messages, comments, literals of the other RDF syntaxes, UTF-16, other line ends, BOMs ...), with characters whose case mappings change their length, combining marks, astral and special code points, look-alikes and ill-formed UTF-8 inserted before / inside / after tokens (once, at several places, or saturating the prefix / the payload / the suffix / everything), given to the parser of the embedded format and to the other parsers, through every public entry point (parse on a slice / BufReader of several capacities / Cursor / a reader handing out 1..n bytes at a time or failing after k bytes, parse_str, the module-level functions, Default, JSON-LD async_parse_str and option presets) and every way of consuming the source (for_each, consuming accessors, one for_some call at a time continuing after an error, a failing sink, collect); each run is checked by the property oracle and every entry point must agree with parse(&[u8]); \
+plus (round 6) HISTORIES: one source driven by a sequence of calls -- every overridable provided method of Source (try_for_each_item, for_some_item, for_each_item, size_hint_items, filter_items, filter_map_items, map_items) and every method of TripleSource / QuadSource (try_for_some_*, try_for_each_* with sinks failing at the 1st..4th statement, for_some_*, for_each_*, size_hint_*, filter_*, filter_map_*, map_*, to_quads / to_triples, collect_*, add_to_*), the adapters' into_iter -- each called again after the previous call returned Err (source or sink error), after Ok and after exhaustion: every ordered pair of calls and every consuming call after nothing / an error / exhaustion (directed), random sequences (random), on documents of valid and broken units in every order (error first / in the middle / last / only errors / nothing), polyglot inputs and failing readers, for every parser and entry point; the oracle runs on every call (a panic or an invalid term after an error is a failure; tagged [after-error-rio-turtle] for the rio_turtle parsers Turtle, TriG, GTriG, GNQ only when an earlier call had reported an error), every call is compared with what the required method try_for_some_item gives on a fresh source (in Rust and, inside Coq, with the model Source.v of the default methods and adapters); and parser OPTIONS as dimensions of the configuration: a pool of base IRIs (none, with query and fragment, without authority, without hierarchy, IPv6, dot segments, non-ASCII) for Turtle / TriG / GTriG / RDF/XML on documents with relative IRIs, @base directives and xml:base; every with_* of JsonLdOptions (processing mode, base / no base, expand context inline / by IRI / removed, ordered, rdf_direction, produce_generalized_rdf, expansion policy, use_native_types, use_rdf_type, compact_arrays, compact_to_relative, spaces, compact context, every document-loader builder with NoLoader / StaticLoader / in-memory closure / chain loaders) one at a time, each together with produce_generalized_rdf, in named combinations and at random, on JSON-LD documents built from 64 features that the options enable (blank node identifiers as properties directly / through terms / @vocab / @reverse / containers / nesting / scoped contexts, relative-IRI properties and vocabularies, @direction, relative and ill-formed @id / @type / datatypes / blank node labels, @base in the context, in-memory remote contexts and @import, @json, native numbers ...); \
 non-trivial = the parser yielded at least one statement from a mutated input (so term validity is actually exercised) or rejected a mutant of a valid document; distinct = distinct (parser, input bytes)".into();
     std::panic::set_hook(Box::new(|info| { LAST_PANIC.with(|l| *l.borrow_mut() = format!("{info}").replace('\n', " ")); }));
     let base = Rng::new(a.seed);
@@ -1165,6 +1963,7 @@ non-trivial = the parser yielded at least one statement from a mutated input (so
         let directed = directed_recipes(thorough);
         let npoly = if thorough { (a.n / 4).min(150_000) } else { a.n / 2 };
         match a.only {
+            Some(i) if i >= 4_000_000 => {}
             Some(i) if i >= 3_000_000 => { if let Some(rc) = directed.get(i - 3_000_000) { run_recipe(i, rc, &mut cx); } }
             Some(i) if i >= 2_000_000 => { run_recipe(i, &random_recipe(&base, i - 2_000_000), &mut cx); }
             Some(_) => {}
@@ -1174,6 +1973,22 @@ non-trivial = the parser yielded at least one statement from a mutated input (so
             }
         }
         utf8_cases = std::mem::take(&mut cx.utf8_cases);
+    }
+    // ---------- round 6: histories (every way of driving a source, again after Err / Ok / exhaustion) and parser options ----------
+    let mut hist_cases: Vec<(usize, String)> = vec![];
+    {
+        let mut cx = HistCtx { sum: &mut sum, profile, verbose: a.only.is_some(), coq_cases: vec![], coq_budget: if profile == "dev" { if thorough { 20_000 } else { 4000 } } else { 0 } };
+        let nh = if thorough { (a.n / 8).min(60_000) } else { a.n / 3 };
+        match a.only {
+            Some(i) if i >= 5_000_000 => { let d = directed_hcases(thorough); if let Some(hc) = d.get(i - 5_000_000) { run_hcase(i, hc, &mut cx); } }
+            Some(i) if i >= 4_000_000 => run_hcase(i, &random_hcase(&base, i - 4_000_000), &mut cx),
+            Some(_) => {}
+            None => {
+                for k in 0..nh { run_hcase(4_000_000 + k, &random_hcase(&base, k), &mut cx); }
+                for (j, hc) in directed_hcases(thorough).iter().enumerate() { run_hcase(5_000_000 + j, hc, &mut cx); }
+            }
+        }
+        hist_cases = std::mem::take(&mut cx.coq_cases);
     }
     // ---------- validators vs the regenerated regexes (evaluated inside Coq) ----------
     // strings over the boundary code points of every class (each range end and its neighbours)
@@ -1208,6 +2023,7 @@ non-trivial = the parser yielded at least one statement from a mutated input (so
             sum.evaluations += 1;
         }
         cases.extend(utf8_cases.drain(..));
+        cases.extend(hist_cases.drain(..));
     }
     // deep nesting, each in a subprocess
     if a.only.is_none() {
